@@ -1,231 +1,87 @@
 """C04 -- augmented-Lagrangian solve returns a KKT point with non-negative multipliers.
 
-  D1  termination only on the full residual: the normal return of augmented_lagrange_solve is dominated
-      by `errorNorm < alSettings.tol` (the AL tolerance *parameter*), errorNorm = norm(total_residual(x)) of
-      the returned x; total_residual stacks the x-gradient of the augmented Lagrangian and the
-      Fischer-Burmeister function of (constraint, multiplier) -- chain checked link by link; the
-      Fischer-Burmeister formula has the NCP zero set (identity + sample evaluation of the extracted formula);
-  D2  multipliers are non-negative after every outer iteration: the last writer of `.lam` on every path to
-      the loop back-edge / normal return is solve_sub_step, whose write is maximum(., 0); other writers in
-      the cone are enumerated;
-  D3  penalties never decrease: `.kappa` is written in the cone only as kappa.at[m].set(s*kappa[m]) with
-      s = alSettings.penalty_scaling (assumed >= 1) and kappa the current penalties; reset_kappa is called
-      only before the solve by the bound-constrained front end;
-  D4  the penalty term is C1 across its switch and the multiplier update is its negative c-derivative
-      (GLUE identities in exact rational-function algebra); preconditioner active-set test agrees.
+Every obligation is decided on *values*: the anchor functions are interpreted by rules/C04_sym.py (symbolic interpreter: exact
+rational normal forms over atoms, uninterpreted user functions, mutable objects of the repository classes, merged / forked branches,
+generalised loops) on symbolic inputs, and the results are compared with what the property needs.  Nothing refers to local names,
+temporaries, helper names, statement shapes or idioms; the anchors are public interface only (the solver entry points and their
+parameter positions, the objective classes with their public methods `total_residual`, `constraint`, `create_augmented_lagrangian`
+and their multiplier / penalty attributes `lam`, `kappa`, the sub-problem solver protocol `(objective, x, settings, callback)`).
+
+  D1  the normal return of augmented_lagrange_solve: on every path that returns, a decided comparison bounds
+      norm(objective.total_residual(x_returned)) -- evaluated in the *state at the return* (current multipliers, penalties,
+      parameters) -- by a quantity that is provably <= alSettings.tol (refuted by a point at which every decision of the path
+      holds and the norm exceeds tol); the objective's parameters at the return are the argument p; the other exit raises (T1).  total_residual(x), interpreted on an
+      objective built by the interpreted constructor from an uninterpreted objective F and constraint G, is the stack of
+      d/dx of the augmented Lagrangian made by create_augmented_lagrangian(F, G) at (x, p, lam, kappa) and of the Fischer-Burmeister
+      function of (G(x, p), lam, k > 0), whose zero set is the complementarity set (T5);
+  D2  multipliers: at the end of every outer iteration (every back edge of the outer loop and the return) the multiplier value
+      is provably >= 0 whatever the multipliers at the loop head; rejected second-order steps hand the multipliers of the loop head to the
+      sub-problem;
+  D3  penalties: at the end of every outer iteration kappa_end - kappa_head >= 0 for penalty_scaling >= 1, kappa > 0; the front end
+      writes penalties only before the solve; the settings constructors put every parameter into the field of its name;
+  D4  the penalty term is C1 across its switch, the multiplier update of an outer iteration is max(lam - kappa*G(x_sub), 0) =
+      the negative c-derivative of the active arm at the sub-problem solution, the preconditioner's constraint stiffness is the
+      second c-derivative of the penalty;
+  D5  bound-constrained front end: homogeneity degrees in the diagonal scaling.
 Not decided: KKT residual values, convex optimum agreement, GMRES behaviour.
 """
 from __future__ import annotations
 
 import ast
+from fractions import Fraction
 
-from optilint.cfg import cfg_of
-from optilint.model import dotted, FuncVal, walk_local
+from optilint.model import walk_local
 from optilint.core import Incomplete
-from optilint.expr import Algebra, NotPolynomial, feval
-from . import trustregion as tr
-from .common import Unifier, src, expand, canon, same, calls_in, single_def, def_value, const_value, actual, cond_atoms
+from . import C04_sym as S
+from .C04_sym import Num, Bv, EvalError
 
 LEVEL = "other"
-RULE_TEXT = ("obligations = (exit of the AL driver x guarded return) + (link of the residual chain) + (writer of .lam/.kappa in "
-             "the solve cone x required form/order) + GLUE identities of the penalty arms")
-EXPLANATION = ("Static analysis of AlSolver.py, ConstrainedObjective.py, BoundConstrained*.py: dominator-based guarded return, "
-               "who-may-write analysis of the multiplier and penalty attributes over the call-graph cone, last-writer "
-               "analysis on the loop paths, and exact algebraic identities for the augmented-Lagrangian penalty arms. "
-               "That the returned numbers satisfy KKT to tolerance is not decided.")
+RULE_TEXT = ("obligations = (path end of the interpreted AL driver x {residual bound, multiplier sign, penalty monotonicity, multiplier update}) "
+             "+ (block of the interpreted total residual) + GLUE identities of the interpreted penalty + scaling degrees of interpreted values")
+EXPLANATION = ("Symbolic interpretation (rules/C04_sym.py) of AlSolver.py, ConstrainedObjective.py, BoundConstrained*.py on uninterpreted "
+               "objective / constraint / sub-problem solver: path conditions of the normal return, sign proofs and witnesses for the multiplier "
+               "and penalty values at the end of a generic outer iteration, exact algebraic identities for the penalty arms, homogeneity degrees "
+               "in the diagonal scaling.  That the returned numbers satisfy KKT to tolerance is not decided.")
 
 AL = "optimism.AlSolver"
 CO = "optimism.ConstrainedObjective"
 BCS = "optimism.BoundConstrainedSolver"
 BCO = "optimism.BoundConstrainedObjective"
+INLINE = {AL, CO, BCS, BCO, "optimism.NewtonSolver", "optimism.Objective", "optimism.JaxConfig"}
+STOP_PREFIX = ("optimism.phasefield", "optimism.material", "optimism.contact", "optimism.Mechanics", "optimism.FunctionSpace")
 
 
 def run(ctx):
     for m in (AL, CO, BCS, BCO, "optimism.NewtonSolver"):
         ctx.need_module(m)
-    ctx.guard(d1, ctx)
-    ctx.guard(d1_chain, ctx)
-    ctx.guard(d2, ctx)
-    ctx.guard(d3, ctx)
-    ctx.guard(d4, ctx)
-    from .common import settings_wiring
-    ctx.guard(settings_wiring, ctx, "D3/T5-settings-wiring", AL)
-    ctx.guard(d5_scaling, ctx)
+    _g(ctx, d3_front_end, "D3/T3-penalties-never-decrease")
+    _g(ctx, driver_rules, "D1/T1-terminate-on-full-residual")
+    _g(ctx, substep_rules, "D2/T4-multipliers-nonnegative")
+    _g(ctx, d1_chain, "D1/T5-residual-chain")
+    _g(ctx, d3_settings, "D3/T5-settings-wiring")
+    _g(ctx, d4, "D4/T7-penalty-glue")
+    _g(ctx, d5_scaling, "D5/T8-scaling-degrees")
     ctx.trust("np.maximum(a, 0.0) >= 0 elementwise")
     ctx.trust("Fischer-Burmeister: sqrt(a^2+b^2) - a - b = 0  <=>  a >= 0, b >= 0, a*b = 0")
-    ctx.assume("alSettings.penalty_scaling >= 1 (admissible settings in the property text)")
-    ctx.assume("alSettings.use_newton_only is False (that mode has no normal return and is not among the admissible settings)")
+    ctx.assume("alSettings.penalty_scaling >= 1 (admissible settings in the property text); penalty parameters are positive; tolerances are positive")
+    ctx.assume("D2-D4 are stated for iterations with alSettings.use_newton_only False (that mode never solves a sub-problem and is not among the "
+               "admissible settings); D1 is decided for every mode: the Newton-only mode must not return normally")
+    ctx.assume("multipliers and penalties have one entry per constraint (len(lam) == len(kappa) == len(constraint(x)))")
+    ctx.assume("the sub-problem solver, the callbacks and external library calls do not modify the multipliers or penalties of the objective; "
+               "residual norms are not NaN (a negated comparison is read as the opposite comparison)")
 
 
-def _driver(ctx):
-    sc = ctx.need(f"{AL}:augmented_lagrange_solve")
-    return sc, cfg_of(sc)
-
-
-# ------------------------------------------------------------------ D1
-
-def d1(ctx):
-    rule = "D1/T1-terminate-on-full-residual"
-    sc, cfg = _driver(ctx)
-    ps = sc.params()
-    obj, xname, als = ps[0], ps[1], ps[3]
-    reach = cfg.reachable_entry()
-    rets = [r for r in cfg.returns() if id(r) in reach]
-    if not rets:
-        ctx.undecided(rule, sc, None, construct="returns", detail="no reachable normal return")
-    for r in rets:
-        v = r.ast.value
-        if not isinstance(v, ast.Name):
-            ctx.undecided(rule, sc, r.ast, construct="return-shape", detail=f"returns `{src(v)}`")
-            continue
-        ok = False
-        why = []
-        for (c, lab) in cfg.edge_facts(r):
-            if c.kind != "cond":
-                continue
-            for (a, pol) in cond_atoms(c.ast, lab):
-                if not (isinstance(a, ast.Compare) and len(a.ops) == 1):
-                    continue
-                l, op, rr = a.left, a.ops[0], a.comparators[0]
-                opn = type(op).__name__
-                if not pol:
-                    opn = {"Lt": "GtE", "LtE": "Gt", "Gt": "LtE", "GtE": "Lt"}.get(opn, "?")
-                # tolerance side must be <AL settings parameter>.tol
-                def is_tol(e):
-                    return isinstance(e, ast.Attribute) and e.attr == "tol" and isinstance(e.value, ast.Name) and e.value.id == als \
-                        and [d for d in cfg.reaching(c, als)] == [cfg.entry]
-                if is_tol(l) and not is_tol(rr):
-                    l, rr = rr, l
-                    opn = {"Lt": "Gt", "LtE": "GtE", "Gt": "Lt", "GtE": "LtE"}.get(opn, "?")
-                le = expand(cfg, c, l, stop=(v.id,))
-                want = f"norm({obj}.total_residual({v.id}))"
-                good_meas = same(le, want) or same(le, f"np.linalg.norm({obj}.total_residual({v.id}))")
-                if not is_tol(rr):
-                    why.append(f"`{src(a)}`: compared against `{src(rr)}`, not the requested AL tolerance `{als}.tol`")
-                    continue
-                if opn not in ("Lt", "LtE"):
-                    why.append(f"`{src(a)}` is not an upper bound")
-                    continue
-                if not good_meas:
-                    why.append(f"`{src(a)}`: measure is `{src(le)}`, not norm of the total residual of the returned point")
-                    continue
-                if not cfg.same_value(v.id, c, r):
-                    why.append("returned point changes after the test")
-                    continue
-                # the measure's definition must see the same x as the test
-                ok = True
-        ctx.decide(rule, ok, sc, r.ast, construct=f"return {v.id}",
-                   detail=f"return dominated by norm(total_residual({v.id})) < {als}.tol",
-                   bad_detail="normal return is not guarded by `norm(total_residual(x)) < alSettings.tol` on the returned x: " + "; ".join(why or ["no tolerance guard dominates the return"]))
-    # the only other exit raises
-    for n in cfg.raises():
-        ctx.proved(rule, sc, n.ast, construct="raise-on-non-convergence", detail="non-converged exit raises")
-    # errorNorm definition evaluated after the sub-step of the same iteration (uses current multipliers): the
-    # call of total_residual(x) that feeds the guard comes after solve_sub_step on every path
-    subs = [n for n in cfg.nodes if n.kind == "stmt" and n.ast is not None and "solve_sub_step" in src(n.ast)]
-    for r in rets:
-        for (c, lab) in cfg.edge_facts(r):
-            if c.kind == "cond" and isinstance(c.ast, ast.Compare) and ".tol" in src(c.ast):
-                for nm in [n.id for n in ast.walk(c.ast) if isinstance(n, ast.Name)]:
-                    for d in cfg.reaching(c, nm):
-                        if d.kind == "stmt" and "total_residual" in src(d.ast):
-                            ok = any(cfg.dominates(s, d) and s.loops == d.loops for s in subs)
-                            ctx.decide(rule, ok, sc, d.ast, construct="residual-after-substep",
-                                       detail="the tested residual is computed after solve_sub_step of the same iteration",
-                                       bad_detail="the tested residual is not computed after the multiplier update of the same iteration")
-
-
-def d1_chain(ctx):
-    rule = "D1/T5-residual-chain"
-    co = ctx.need(f"{CO}:ConstrainedObjective")
-    tot = ctx.need(f"{CO}:ConstrainedObjective.total_residual")
-    r = tot.returns()
-    ok = len(r) == 1 and same(r[0], "self.constrained_residual(np.hstack((x, self.lam)))")
-    ctx.decide(rule, ok, tot, r[0] if r else None, construct="total_residual",
-               detail="constrained_residual(hstack(x, lam))", bad_detail=f"total_residual returns `{src(r[0]) if r else '?'}`")
-    cr = ctx.need(f"{CO}:ConstrainedObjective.constrained_residual")
-    r = cr.returns()
-    ok = len(r) == 1 and same(r[0], "self.jit_hres(xl, self.p, self.kappa)")
-    ctx.decide(rule, ok, cr, r[0] if r else None, construct="constrained_residual",
-               detail="jit_hres(xl, p, kappa)", bad_detail=f"constrained_residual returns `{src(r[0]) if r else '?'}`")
-    init = ctx.need(f"{CO}:ConstrainedObjective.__init__")
-    icfg = cfg_of(init)
-    u = Unifier(init)
-    ip = init.params()       # self, objective_func, constraint_func, ...
-    attr_def = {}
-    for st in walk_local(init.node):
-        if isinstance(st, ast.Assign) and isinstance(st.targets[0], ast.Attribute) and isinstance(st.targets[0].value, ast.Name) \
-                and st.targets[0].value.id == ip[0]:
-            attr_def.setdefault(st.targets[0].attr, []).append(st)
-    # locals first (they bind the pattern variables), then the attributes that use them
-    for nm, want in (("f", f"{ip[0]}.create_augmented_lagrangian({ip[1]}, {ip[2]})"), ("grad_x", "grad(f, 0)")):
-        hit = u.assigns(want, target=nm)
-        ctx.decide(rule, len(hit) == 1, init, hit[0] if hit else None, construct=f"init:{nm}", detail=f"{nm} = {want}",
-                   bad_detail=f"no unique definition `{nm} = {want}` (up to names of locals) in ConstrainedObjective.__init__")
-    for nm, want in (("jit_hres", f"jit({ip[0]}.hres)"),
-                     ("hres", "lambda xl, p, k: hres_all_args(xl[:-k.size], p, xl[-k.size:], k)"),
-                     ("jit_grad_x", "jit(grad_x)"), ("jit_objective", "jit(f)")):
-        lst = attr_def.get(nm, [])
-        if len(lst) != 1:
-            raise Incomplete(f"ConstrainedObjective.__init__: {len(lst)} definitions of self.{nm}")
-        st = lst[0]
-        from .common import defs_to_lambdas
-        ctx.decide(rule, u.match(st.value, want) or u.match(defs_to_lambdas(st.value, init), want), init, st, construct=f"init:{nm}", detail=f"self.{nm} = {want}",
-                   bad_detail=f"self.{nm} is defined as `{src(st.value)}`, expected `{want}` (up to names of locals)")
-    # nested helper functions
-    kids = {c.name: c for c in init.children if c.kind == "function"}
-    for nm, want in (("hres_all_args", "np.hstack((grad_x(x, p, l, k), ncp_func(x, p, l)))"),
-                     ("ncp_func", f"vmap(fischer_burmeister)(c, l, {ip[0]}.constraintKappa)")):
-        k = kids.get(nm)
-        if k is None:
-            raise Incomplete(f"ConstrainedObjective.__init__.{nm} not found")
-        kcfg = cfg_of(k)
-        r = kcfg.returns()
-        e = r[0].ast.value if r else None
-        uk = Unifier(k)
-        uk.bind = {t: a for t, a in u.bind.items()}
-        kp = k.params()
-        want_k = want
-        for old_, new_ in zip(("x", "p", "l", "k"), kp):
-            want_k = __import__("re").sub(rf"\b{old_}\b", new_, want_k)
-        ctx.decide(rule, len(r) == 1 and uk.match(e, want_k), k, e, construct=f"init:{nm}", detail=want,
-                   bad_detail=f"{nm} returns `{src(e)}`, expected `{want}`")
-        if nm == "ncp_func" and r:
-            cd = uk.def_of("c")
-            ok = len(cd) == 1 and uk.match(cd[0].value, f"{ip[2]}({kp[0]}, {kp[1]})")
-            ctx.decide(rule, ok, k, cd[0] if cd else None, construct="init:ncp_func:c", detail="c = constraint_func(x, p)",
-                       bad_detail="the NCP function is not evaluated on constraint_func(x, p)")
-    # Fischer-Burmeister formula
-    fb = ctx.need(f"{CO}:fischer_burmeister")
-    fcfg = cfg_of(fb)
-    fr = fcfg.returns()
-    c_, l_, k_ = fb.params()
-    e = expand(fcfg, fr[0], fr[0].ast.value, stop=(c_, l_, k_)) if fr else None
-    ok = None
-    detail = ""
+def _g(ctx, fn, rule):
+    """an operation the interpreter does not model makes the rule undecided (exit 2), never a violation"""
     try:
-        pts = [({c_: 1.0, l_: 0.0, k_: 2.0}, True), ({c_: 0.0, l_: 3.0, k_: 2.0}, True), ({c_: 0.0, l_: 0.0, k_: 1.0}, True),
-               ({c_: 1.0, l_: 1.0, k_: 2.0}, False), ({c_: -1.0, l_: 0.0, k_: 2.0}, False), ({c_: 0.0, l_: -2.0, k_: 1.0}, False),
-               ({c_: 2.0, l_: 0.5, k_: 0.25}, False), ({c_: -0.5, l_: 2.0, k_: 3.0}, False)]
-        bad = []
-        for env, zero in pts:
-            v = feval(e, env)
-            if (abs(v) < 1e-12) != zero:
-                bad.append((env, v))
-        A = Algebra()
-        ident = A.equal(A.lower(e), A.lower(ast.parse(f"np.sqrt(({c_}*{k_})**2 + {l_}**2) - {c_}*{k_} - {l_}", mode="eval").body))
-        ok = (not bad) and ident
-        detail = f"normal form equals sqrt((ck)^2+l^2)-ck-l: {ident}; zero-set samples wrong: {bad[:2]}"
-    except (NotPolynomial, KeyError, TypeError) as ex:
-        detail = f"cannot evaluate formula: {ex}"
-        ok = None
-    ctx.decide(rule, ok, fb, fr[0].ast if fr else None, construct="fischer_burmeister", detail=detail,
-               bad_detail="fischer_burmeister does not have the NCP zero set {c>=0, l>=0, c*l=0}: " + detail)
+        return ctx.guard(fn, ctx)
+    except (EvalError, RecursionError) as e:
+        ctx.undecided(rule, None, None, construct=f"{fn.__name__}: not interpretable", detail=f"{type(e).__name__}: {e}")
 
 
-# ------------------------------------------------------------------ D2
+# ------------------------------------------------------------------ shared machinery
 
-def _attr_writers(ctx, scopes, attr):
+def _attr_writers(scopes, attr):
     out = []
     for s in scopes:
         if not s.is_function():
@@ -237,528 +93,1651 @@ def _attr_writers(ctx, scopes, attr):
             elif isinstance(st, (ast.AugAssign, ast.AnnAssign)):
                 tg = [st.target]
             for t in tg:
-                if isinstance(t, ast.Attribute) and t.attr == attr:
-                    out.append((s, st))
+                for x in ast.walk(t):
+                    if isinstance(x, ast.Attribute) and isinstance(x.ctx, ast.Store) and x.attr == attr:
+                        out.append((s, st))
     return out
 
 
-def d2(ctx):
-    rule = "D2/T4-multipliers-nonnegative"
-    sc, cfg = _driver(ctx)
-    obj = sc.params()[0]
-    bcs = ctx.need(f"{BCS}:bound_constrained_solve")
-    cone = ctx.cg.cone([sc, bcs], stop=lambda s: s.module.name.startswith(("optimism.phasefield", "optimism.material", "optimism.contact", "optimism.Mechanics", "optimism.FunctionSpace")))
-    writers = _attr_writers(ctx, cone, "lam")
-    sub = ctx.need(f"{AL}:solve_sub_step")
-    allowed_ctor = {f"{CO}:ConstrainedObjective.__init__"}
-    helpers = {}        # other functions of the cone that assign `.lam`: a call to one of them from the driver counts as a write there
-    for (s, st) in writers:
-        if s is sub or s is sc:
+def _machine(ctx, opaque=()):
+    cache = {}
+
+    def effects(scope):
+        """attribute names (of the tracked ones) possibly assigned in the call-graph cone of a function that is not interpreted"""
+        q = scope.qualname
+        if q not in cache:
+            cone = ctx.cg.cone([scope], stop=lambda s: s.module.name.startswith(STOP_PREFIX))
+            w = set()
+            for a in ("lam", "kappa", "p"):
+                if _attr_writers(cone, a):
+                    w.add(a)
+            cache[q] = w
+        return cache[q]
+    M = S.Exec(ctx.repo, inline_modules=INLINE, effects=effects)
+    M.opaque_names = set(opaque)
+    orig = M.may_inline
+    M.may_inline = lambda sc: sc.qualname not in M.opaque_names and orig(sc)
+    return M
+
+
+def _closure(M, scope):
+    return S.Closure(scope, M.module_frame(scope.module))
+
+
+def _new_objective(M, cls_scope, label=""):
+    """ConstrainedObjective(F, G, x0, p0, lam0, kappa0, precondStrategy) with uninterpreted F, G; returns (obj, symbols)"""
+    sy = dict(F=M.sym("F" + label), G=M.sym("G" + label), X0=M.sym("x0" + label, "n"), P0=M.sym("p0" + label),
+              L0=M.sym("lam0" + label, "m"), K0=M.sym("kappa0" + label, "m"), PS=M.sym("precondStrategy" + label))
+    M.domain[M.single_atom(sy["K0"]).id] = "pos"
+    obj = M.call(S.ClassV(cls_scope), [sy["F"], sy["G"], sy["X0"], sy["P0"], sy["L0"], sy["K0"], sy["PS"]], {})
+    if not isinstance(obj, S.Obj):
+        raise EvalError("constructor did not produce an object")
+    return obj, sy
+
+
+def _storage(M, obj, name):
+    """name of the attribute cell in which the public attribute `name` of the object is stored (itself, unless the class routes it
+    through a property / setter): found by writing a probe through the public name"""
+    try:
+        old = M.getattr(obj, name)
+        probe = M.sym("probe:" + name)
+        M.store_attr(obj, name, probe)
+        h = M.st.heap[obj.oid]
+        hits = [k for k, v in h.items() if isinstance(v, Num) and M.nkey(v) == M.nkey(probe)]
+        M.store_attr(obj, name, old)
+    except (EvalError, S._NeedFork):
+        return name
+    return hits[0] if len(hits) == 1 else name
+
+
+def _quiet_call(M, f, args):
+    """call inside a finished path: no forks"""
+    saved = M.dec
+    M.dec = S.NoFork()
+    try:
+        return M.call(f, list(args), {})
+    except S._NeedFork:
+        raise EvalError("needs a decision")
+    finally:
+        M.dec = saved
+
+
+def _differ(M, a, b, log=(), seed=29):
+    """False: equal normal forms; True: a witness point where the two values differ; None: neither shown"""
+    if M.equal(a, b):
+        return False
+    try:
+        w = S.Sampler(M, seed).witness(lambda s: abs(s.num(a) - s.num(b)) > 1e-9 * (1 + abs(s.num(a))), log=log, tries=80)
+    except S.NoSample:
+        return None
+    return True if w is not None else None
+
+
+def _tri(differ):
+    """verdict of an equality obligation from _differ"""
+    return True if differ is False else (False if differ is True else None)
+
+
+def _touch_visited(ctx, M):
+    for q, sc in M.visited.items():
+        if sc.kind == "function":
+            ctx.touch(sc)
+
+
+def _short(M, v, n=160):
+    s = M.show(v, 3)
+    return s if len(s) <= n else s[:n] + "..."
+
+
+# ------------------------------------------------------------------ the AL driver: D1/T1, D2, D3, D4 multiplier update
+
+class _DriverObs:
+    def __init__(self):
+        self.obj = None
+
+    def probe(self, M, x):
+        o = {}
+        try:
+            o["tr"] = _quiet_call(M, M.getattr(self.obj, "total_residual"), [x]) if isinstance(x, Num) else None
+        except EvalError as e:
+            o["tr"], o["tr_err"] = None, str(e)
+        return o
+
+    def solver_calls(self, M, events):
+        """calls of the sub-problem solver: an uninterpreted parameter applied to (objective, point, ...), positionally or by keyword"""
+        out = []
+        for ev in events:
+            if ev.kind != "call" or not isinstance(ev.fn, Num):
+                continue
+            vals = list(ev.args) + list(ev.kwargs.values())
+            if vals and isinstance(vals[0], S.Obj) and vals[0].oid == self.obj.oid and len(vals) >= 2 and isinstance(vals[1], Num):
+                ev.point = vals[1]
+                out.append(ev)
+        return out
+
+    def at_solution(self, M):
+        """constraint values at the point returned by the last sub-problem solve of this path"""
+        evs = self.solver_calls(M, M.st.events)
+        if not evs:
+            return None
+        ev = evs[-1]
+        try:
+            x_new = M.mk_item(ev.result, M.const(0))
+            c = _quiet_call(M, M.getattr(self.obj, "constraint"), [x_new])
+        except EvalError as e:
+            return (ev, None, str(e))
+        return (ev, c, None)
+
+    def on_end(self, M, kind, value):
+        if kind != "return":
+            return {}
+        o = self.probe(M, value)
+        o["sol"] = self.at_solution(M)
+        return o
+
+    def on_backedge(self, M, lid, fr):
+        be = M.st.events[-1]
+        be.sol = self.at_solution(M)
+
+
+def _settings_record(ctx, M, als):
+    """the AL settings as a record of the type the public constructor get_settings() returns, every field an independent unknown
+    `alSettings.<field>` (so that attribute access, indexing, unpacking and _replace all see the same unknowns); the bare symbol when
+    the settings are not a record type"""
+    gs = ctx.repo.find(f"{AL}:get_settings")
+    if gs is None:
+        return als
+    M2 = _machine(ctx)
+    try:
+        M2.max_paths = 4
+        ends = M2.explore(lambda: M2.call(_closure(M2, gs), [], {}))
+    except (EvalError, RecursionError):
+        return als
+    if len(ends) != 1 or not isinstance(ends[0].value, S.Rec):
+        return als
+    nt = ends[0].value.nt
+    return S.Rec(nt, [M.mk_attr(als, f) for f in nt.fields])
+
+
+def _run_driver(ctx):
+    sc = ctx.need(f"{AL}:augmented_lagrange_solve")
+    cls = ctx.need(f"{CO}:ConstrainedObjective")
+    M = _machine(ctx)
+    ps = sc.params()
+    if len(ps) < 5:
+        raise Incomplete("augmented_lagrange_solve: fewer than 5 positional parameters")
+    obs = _DriverObs()
+    M.observer = obs
+    info = {}
+    als = M.sym("alSettings")
+    subs = M.sym("subSettings")
+    tol = M.mk_attr(als, "tol")
+    M.domain[M.single_atom(tol).id] = "pos"
+    M.domain[M.single_atom(M.mk_attr(subs, "tol")).id] = "pos"
+    M.domain[M.single_atom(M.mk_attr(als, "penalty_scaling")).id] = ("ge", Fraction(1))
+    extra = {n: M.sym("arg:" + n) for n in ps[5:] + sc.kwonly()}
+    als_val = _settings_record(ctx, M, als)
+    p_arg = M.sym("p")
+    info.update(p_arg=p_arg, newton_only=M.truthf(M.mk_attr(als, "use_newton_only")))
+
+    def thunk():
+        obj, sy = _new_objective(M, cls)
+        obs.obj = obj
+        info.update(sy=sy, oid=obj.oid, lam=_storage(M, obj, "lam"), kappa=_storage(M, obj, "kappa"), pcell=_storage(M, obj, "p"))
+        args = [obj, M.sym("x", "n"), p_arg, als_val, subs]
+        return M.call(_closure(M, sc), args, dict(extra))
+    ends = M.explore(thunk)
+    _touch_visited(ctx, M)
+    info.update(M=M, sc=sc, ends=ends, als=als, subs=subs, tol=tol, extra=extra)
+    return info
+
+
+def _outer_loop(info):
+    """the generalised loops of the driver that are not nested in another generalised loop"""
+    return sorted(info["M"].cut_loops)
+
+
+def _bound_from_decision(M, f, val, meas_id):
+    """upper bound B with  measure < B  or  measure <= B  implied by the decided comparison atom, else None"""
+    if f[0] not in ("lt0", "le0"):
+        return None
+    d = f[2]
+    if d.r.d != S.ONE or d.r.n.degree_in(meas_id) != 1:
+        return None
+    alpha = Num(S.Rat(d.r.n.diff(meas_id), S.ONE))
+    if not M.is_const(alpha):
+        return None
+    a = M.cval(alpha)
+    rest = M.sub(d, M.mul(alpha, M.anum(M.by_id[meas_id])))
+    if meas_id in rest.r.n.atoms():
+        return None
+    if (a > 0) == bool(val):
+        return M.div(M.neg(rest), alpha)
+    return "lower"          # an understood comparison that bounds the measure from below: no help, but nothing unknown either
+
+
+def _mentions(M, v, ids, depth=0, seen=None):
+    """does the value mention one of the atoms (transitively through atom parts)?"""
+    seen = seen if seen is not None else set()
+    if isinstance(v, Num):
+        for a in M.atoms_of(v):
+            if a.id in ids:
+                return True
+            if a.id in seen:
+                continue
+            seen.add(a.id)
+            if depth < 8 and any(_mentions(M, p, ids, depth + 1, seen) for p in a.parts):
+                return True
+        return False
+    if isinstance(v, (tuple, list)):
+        return any(_mentions(M, x, ids, depth + 1, seen) for x in v)
+    if isinstance(v, Bv):
+        return any(_mentions(M, a[2], ids, depth + 1, seen) for a in S.f_atoms(v.f) if a[0] in ("lt0", "le0", "eq0"))
+    if isinstance(v, str) and v.startswith("@"):
+        return v in ids
+    return False
+
+
+def _formula_mentions(M, f, ids):
+    import re
+    for a in S.f_atoms(f):
+        if a[0] in ("lt0", "le0", "eq0"):
+            if _mentions(M, a[2], ids):
+                return True
+        else:
+            for i in re.findall(r"@\d+", a[1]):
+                at = M.by_id.get(i)
+                if at is not None and (i in ids or _mentions(M, M.anum(at), ids)):
+                    return True
+    return False
+
+
+def driver_rules(ctx):
+    info = _run_driver(ctx)
+    d1_returns(ctx, info)
+    d2_d3_iteration_ends(ctx, info)
+    _writers_in_cone(ctx, info)
+
+
+def d1_returns(ctx, info):
+    rule = "D1/T1-terminate-on-full-residual"
+    M, sc, ends, tol = info["M"], info["sc"], info["ends"], info["tol"]
+    rets = [e for e in ends if e.kind == "return"]
+    raises = [e for e in ends if e.kind == "raise"]
+    if not rets:
+        ctx.undecided(rule, sc, None, construct="returns", detail="no path of the interpreted driver returns normally")
+    verdicts, pverdicts = [], []      # (ok, detail)
+    for e in rets:
+        x = e.value
+        tr = e.obs.get("tr")
+        if not isinstance(x, Num) or tr is None:
+            verdicts.append((None, f"returned value / total residual at the return not evaluable ({e.obs.get('tr_err', type(x).__name__)})"))
             continue
-        if s.qualname in allowed_ctor:
-            ctx.proved(rule, s, st, construct="writer:constructor", detail="initial multipliers are set by the constructor (caller-supplied)")
+        meas = M.single_atom(M.mk_norm(tr))
+        meas2 = M.single_atom(M.mk_n2(tr))
+        if meas is None or meas2 is None:
+            verdicts.append((None, "norm of the total residual is not an atom"))
             continue
-        helpers.setdefault(s, []).append(st)
-    # solve_sub_step: every return sees a lam written as maximum(., 0)
-    scfg = cfg_of(sub)
-    sobj = sub.params()[0]
-    cell = f"{sobj}.lam"
-    for r in scfg.returns():
-        ds = scfg.reaching(r, cell)
-        if not ds:
-            ctx.refuted(rule, sub, r.ast, construct="sub-step-writes-lam", detail="solve_sub_step returns without updating the multipliers")
-            continue
-        for d in ds:
-            v = d.ast.value if isinstance(d.ast, ast.Assign) else None
-            ok = isinstance(v, ast.Call) and (dotted(v.func) or "").split(".")[-1] == "maximum" and len(v.args) == 2 \
-                and any(const_value(a) == 0 for a in v.args)
-            ctx.decide(rule, ok, sub, d.ast, construct="sub-step-lam-is-max0",
-                       detail=f"{src(d.ast)}", bad_detail=f"multiplier update `{src(d.ast)}` is not of the form maximum(., 0): multipliers can become negative")
-    # driver: after any write to .lam in the loop, the sub-step runs before the back-edge / normal return
-    loops = [n for n in cfg.nodes if n.kind == "for" and not n.loops]
-    if len(loops) != 1:
-        raise Incomplete("augmented_lagrange_solve: outer loop not found")
-    loop = loops[0]
-    subcalls = [n for n in cfg.nodes if n.kind == "stmt" and n.ast is not None and
-                any(isinstance(c, ast.Call) and isinstance(c.func, ast.Name) and c.func.id == "solve_sub_step" for c in ast.walk(n.ast))]
-    if not subcalls:
-        ctx.refuted(rule, sc, None, construct="driver-calls-sub-step", detail="augmented_lagrange_solve never calls solve_sub_step")
+        ids = {meas.id, meas2.id}
+        # ---- proof: a decided comparison of the path bounds the measure by something <= tol
+        got = None
+        for f, val in e.log:
+            if f[0] not in ("lt0", "le0"):
+                continue
+            b = _bound_from_decision(M, f, val, meas.id)
+            sq = False
+            if b is None:
+                b = _bound_from_decision(M, f, val, meas2.id)
+                sq = b is not None
+            if b is None or isinstance(b, str):
+                continue
+            if M.nonneg(M.sub(M.mul(tol, tol) if sq else tol, b)):
+                got = (True, f"norm(total_residual(x)) at the returned state is bounded by `{_short(M, b)}` <= alSettings.tol")
+                break
+        # ---- refutation: a point of the admissible domain at which every decision of the path holds and the residual exceeds tol
+        if got is None:
+            try:
+                smp = S.Sampler(M, 7)
+                w = smp.witness(lambda s: s.atom(meas) > s.num(tol) * (1 + 1e-6), log=e.log, tries=400,
+                                strict=lambda f: _formula_mentions(M, f, ids))
+            except S.NoSample as ex:
+                w = None
+                got = (None, f"a test on this path involves the total residual of the returned state in a form that is not understood ({str(ex)[:80]})")
+            if w is not None:
+                tested = [_short(M, Bv(f if v else S.f_not(f)), 150) for f, v in e.log if _formula_mentions(M, f, ids | {M.single_atom(tol).id})]
+                got = (False, "a path returns normally although the tests decided on it do not bound norm(total_residual(x)) of the returned point, "
+                              "taken in the state at the return (current multipliers / penalties / parameters), by alSettings.tol: e.g. norm = "
+                              f"{_wval(M, M.anum(meas), w)} with tol = {_wval(M, tol, w)} passes all of them; tests on this path that involve the "
+                              "residual or the tolerance: " + ("; ".join(tested[-2:]) or "none"))
+            elif got is None:
+                got = (None, "no test of this path was recognised as a bound of norm(total_residual(x)) by alSettings.tol, and no witness was found either")
+        verdicts.append(got)
+        # ---- the residual is the one of the requested problem: the objective's parameters at the return are the argument p
+        pcell = info.get("pcell")
+        p_now = e.heap.get(info["oid"], {}).get(pcell)
+        if isinstance(p_now, Num):
+            df = _differ(M, p_now, info["p_arg"], e.log, 37)
+            pverdicts.append((_tri(df), "" if df is False else f"at a normal return the objective's parameters are `{_short(M, p_now)}`, not the requested "
+                                                           f"`{_short(M, info['p_arg'])}`: the residual that was tested is the one of another problem"))
+        else:
+            pverdicts.append((None, "parameter attribute of the objective not a value at the return"))
+    if verdicts:
+        bad = [d for ok, d in verdicts if ok is False]
+        und = [d for ok, d in verdicts if ok is None]
+        ok = False if bad else (None if und else True)
+        ctx.decide(rule, ok, sc, None, construct="normal-return:residual-bound",
+                   detail=f"{len(verdicts)} returning path(s): " + verdicts[0][1],
+                   bad_detail=(bad or und or [""])[0])
+    _agg(ctx, rule, sc, "normal-return:parameters-are-the-requested-ones", pverdicts, "objective.p at the return is the argument p")
+    if raises:
+        ctx.proved(rule, sc, None, construct="raise-on-non-convergence", detail=f"{len(raises)} path(s) leave the outer loop without convergence: all raise")
+    # a path that falls out of the function without return / raise would return None
+    none_rets = [e for e in rets if e.value is None]
+    if none_rets:
+        ctx.refuted(rule, sc, None, construct="implicit-return", detail="a path falls off the end of the driver (returns None) without a convergence test")
+    ctx.proved(rule, sc, None, construct="interpreted-paths", detail=f"{len(ends)} paths of the driver interpreted (one generic outer iteration)")
+
+
+def _wval(M, v, env):
+    s = S.Sampler(M, 0)
+    s.env = dict(env)
+    try:
+        return f"{s.num(v):.3g}"
+    except Exception:
+        return "?"
+
+
+def _solve_loops(info):
+    """the outer-iteration loops: generalised loops of the driver in whose body a sub-problem solve happens on some path"""
+    M, obs = info["M"], info["M"].observer
+    out = set()
+    for e in info["ends"]:
+        cur = None
+        for ev in e.events:
+            if ev.kind == "loophead" and ev.loop in set(_outer_loop(info)):
+                cur = ev.loop
+            elif ev.kind == "backedge" and ev.loop == cur:
+                cur = None
+            elif cur is not None and ev.kind == "call" and obs.solver_calls(M, [ev]):
+                out.add(cur)
+    # a driver that never solves a sub-problem: every loop of the driver counts as the outer iteration
+    return out or set(_outer_loop(info))
+
+
+def _iteration_ends(info):
+    """(path end, head cells, end heap cells of the objective, solver info, where) for every end of a generic outer iteration"""
+    M, oid = info["M"], info["oid"]
+    outer = _solve_loops(info)
+    out = []
+    for e in info["ends"]:
+        if info.get("newton_only") is not None and e.facts.ev(info["newton_only"]) is True:
+            continue        # the mode without sub-problem solves: excluded by the stated assumption (it never returns normally: D1)
+        head = None
+        closed = True
+        for ev in e.events:
+            if ev.kind == "loophead" and ev.loop in outer:
+                head, closed = ev, False
+            elif ev.kind == "backedge" and ev.loop in outer and head is not None:
+                cells = {n: v for (k, o, n), v in ev.cells.items() if k == "h" and o == oid}
+                out.append((e, head, cells, getattr(ev, "sol", None), "back-edge"))
+                closed = True
+        if e.kind == "return" and head is not None and not closed:
+            out.append((e, head, dict(e.heap.get(oid, {})), e.obs.get("sol"), "return"))
+    return out
+
+
+def _leaves(v, depth=0):
+    """numeric leaves of a (possibly structured) cell value: record fields, tuple / list items, dict values"""
+    if isinstance(v, Num):
+        yield v
+    elif depth < 4:
+        if isinstance(v, (tuple, list)):
+            for x in v:
+                yield from _leaves(x, depth + 1)
+        elif isinstance(v, S.Rec):
+            for x in v.values:
+                yield from _leaves(x, depth + 1)
+        elif isinstance(v, S.PyList):
+            for x in v.items:
+                yield from _leaves(x, depth + 1)
+        elif isinstance(v, S.PyDict):
+            for x in v.items.values():
+                yield from _leaves(x, depth + 1)
+
+
+def _agg(ctx, rule, scope, construct, verdicts, good):
+    """one obligation per construct: REFUTED if a path derives a contradiction, UNDECIDED if a path is not understood"""
+    if not verdicts:
         return
-    # assumption use_newton_only False: remove the False edge of `if not alSettings.use_newton_only`
-    removed = []
-    for c in cfg.nodes:
-        if c.kind == "cond" and "use_newton_only" in src(c.ast) and isinstance(c.ast, ast.UnaryOp):
-            for (m, lab) in c.succ:
-                if lab is False:
-                    removed.append((c, m, lab))
-    dw = [n for n in cfg.nodes if n.kind == "stmt" and isinstance(n.ast, (ast.Assign, ast.AugAssign)) and
-          any(c == f"{obj}.lam" for (c, w) in cfg.defs_of(n))]
-    from .common import find_calls_to
-    for h, sts in helpers.items():
-        sites = find_calls_to(sc, ctx, h.qualname)
-        nodes = [n for n in cfg.nodes if n.ast is not None and n.kind in ("stmt", "cond") and any(x is c_ for c_ in sites for x in ast.walk(n.ast))]
-        if not nodes:
-            for st in sts:
-                ctx.undecided(rule, h, st, construct=f"writer:{h.qualname}", detail="writer of `.lam` inside the solve cone that the driver does not call directly")
+    bad = [d for ok, d in verdicts if ok is False]
+    und = [d for ok, d in verdicts if ok is None]
+    ok = False if bad else (None if und else True)
+    ctx.decide(rule, ok, scope, None, construct=construct, detail=f"{len(verdicts)} path(s): {good}", bad_detail=(bad or und or [""])[0])
+
+
+def d2_d3_iteration_ends(ctx, info):
+    M, sc, oid = info["M"], info["sc"], info["oid"]
+    r2 = "D2/T4-multipliers-nonnegative"
+    its = _iteration_ends(info)
+    if not _solve_loops(info):
+        ctx.undecided(r2, sc, None, construct="outer-loop", detail="no loop with a sub-problem solve found in the interpreted driver")
+        return
+    if not its:
+        ctx.undecided(r2, sc, None, construct="outer-iteration-end", detail="no path reaches the end of an outer iteration")
+        return
+    _check_ends(ctx, M, sc, oid, its, "outer-iteration-end", "an outer iteration", "the outer iteration", info["lam"], info["kappa"])
+
+
+def _check_ends(ctx, M, sc, oid, its, label, an_iter, the_iter, LAM="lam", KAP="kappa"):
+    """its: (path end, head event, objective attributes at the end, solver info, where).  Decides, for every end of an iteration /
+    of the sub-step: sign of the multipliers, monotonicity of the penalties, form of the multiplier update, restored multipliers"""
+    r2, r3, r4 = "D2/T4-multipliers-nonnegative", "D3/T3-penalties-never-decrease", "D4/T7-multiplier-update"
+    v2, v3, v4, vrest = {}, {}, [], []
+    for (e, head, cells, sol, where) in its:
+        lam_h, kap_h = head.cells.get(("h", oid, LAM)), head.cells.get(("h", oid, KAP))
+        lam_e, kap_e = cells.get(LAM), cells.get(KAP)
+        if not all(isinstance(v, Num) for v in (lam_h, kap_h, lam_e, kap_e)):
+            v2.setdefault(where, []).append((None, "multiplier / penalty attribute is not a numeric value at the end of the iteration"))
             continue
-        ctx.touch(h)
-        dw += [n for n in nodes if n not in dw]
-    reach = cfg.reachable_entry()
-    targets = [loop] + [r for r in cfg.returns() if id(r) in reach]
-    for w in dw:
-        bad = []
-        for t in targets:
-            r = cfg.reachable_from(w, removed_edges=removed, blocked=subcalls)
-            # reached t without passing a sub-step call?
-            if id(t) in r and t is not w:
-                # t reached possibly via blocked node itself: blocked nodes are included but not expanded
-                if t in subcalls:
-                    continue
-                bad.append(t)
-        ctx.decide(rule, not bad, sc, w.ast, construct=f"driver-write-followed-by-sub-step:{src(w.ast)[:50]}",
-                   detail="every path from this write to the next outer iteration / return passes through solve_sub_step",
-                   bad_detail=f"after `{src(w.ast)}` the next outer iteration or the return can be reached without solve_sub_step: "
-                              f"possibly negative multipliers survive the iteration")
-    # line search restores the saved multipliers on failure
-    for fn in [sc] + list(helpers):
-        fcfg = cfg if fn is sc else cfg_of(fn)
-        fobj = None
-        fw = []
-        for n in fcfg.nodes:
-            if n.kind == "stmt" and isinstance(n.ast, (ast.Assign, ast.AugAssign)):
-                for (c, w_) in fcfg.defs_of(n):
-                    if c.endswith(".lam") and c.count(".") == 1:
-                        fw.append((n, c.split(".")[0]))
-        for (w, o_) in fw:
-            saves = [n for n in fcfg.nodes if n.kind == "stmt" and isinstance(n.ast, ast.Assign) and isinstance(n.ast.value, ast.Call)
-                     and (same(n.ast.value, f"np.array({o_}.lam)") or same(n.ast.value, f"{o_}.lam.copy()") or same(n.ast.value, f"np.copy({o_}.lam)")
-                          or same(n.ast.value, f"onp.array({o_}.lam)"))]
-            v = w.ast.value if isinstance(w.ast, ast.Assign) else None
-            if isinstance(v, ast.Name):
-                ok = any(isinstance(s_.ast.targets[0], ast.Name) and s_.ast.targets[0].id == v.id and fcfg.dominates(s_, w) for s_ in saves)
-                ctx.decide(rule, ok, fn, w.ast, construct="line-search-restores-saved-multipliers",
-                           detail=f"restored from a copy saved before the line search",
-                           bad_detail=f"`{src(w.ast)}` does not restore a copy of the multipliers saved before the line search")
+        for a in M.atoms_of(kap_h):
+            if a.kind in ("hav", "sym"):
+                M.domain[a.id] = "pos"
+        # ---- D2: sign of the multipliers
+        if M.nonneg(lam_e):
+            v2.setdefault(where, []).append((True, ""))
+        else:
+            try:
+                w = S.Sampler(M, 11).witness(lambda s: s.num(lam_e) < -1e-9, log=e.log)
+            except S.NoSample as ex:
+                w = None
+            if w is not None:
+                v2.setdefault(where, []).append((False, f"{an_iter} can end ({where}) with multipliers `{_short(M, lam_e)}`, which are negative "
+                                                        f"e.g. ({_wval(M, lam_e, w)}) for admissible values of the uninterpreted quantities: the multipliers "
+                                                        f"are not projected onto >= 0 on this path"))
+            else:
+                v2.setdefault(where, []).append((None, f"sign of the multipliers `{_short(M, lam_e)}` at the end of {an_iter} not decided"))
+        # ---- D3: penalties
+        diff = M.sub(kap_e, kap_h)
+        if M.nonneg(diff):
+            v3.setdefault(where, []).append((True, ""))
+        else:
+            try:
+                w = S.Sampler(M, 13).witness(lambda s: s.num(diff) < -1e-9, log=e.log)
+            except S.NoSample:
+                w = None
+            if w is not None:
+                v3.setdefault(where, []).append((False, f"penalties at the end of {an_iter} ({where}) are `{_short(M, kap_e)}`; with penalties "
+                                                        f"k at its start the change can be negative ({_wval(M, diff, w)}): a penalty parameter decreases"))
+            else:
+                v3.setdefault(where, []).append((None, f"monotonicity of the penalties `{_short(M, kap_e)}` not decided"))
+        # ---- D4: the multiplier update of the iteration
+        if sol is not None:
+            ev, c, err = sol
+            lam_p, kap_p = ev.heap.get(oid, {}).get(LAM), ev.heap.get(oid, {}).get(KAP)
+            if c is None or not isinstance(lam_p, Num) or not isinstance(kap_p, Num) or ev.guards:
+                v4.append((None, f"constraint at the sub-problem solution not evaluable ({err})"))
+            else:
+                want = M.mk_minmax("max", M.sub(lam_p, M.mul(kap_p, c)), M.const(0))
+                df = _differ(M, lam_e, want, e.log, 17)
+                if df is False:
+                    v4.append((True, ""))
+                else:
+                    v4.append((False if df else None,
+                               f"multipliers after {the_iter} are `{_short(M, lam_e)}`, not max(lam - kappa*constraint(x_sub), 0) = `{_short(M, want)}` "
+                               f"with lam, kappa at the sub-problem solve and x_sub its solution"))
+            # ---- rejected second-order steps leave the multipliers of the loop head
+            x_arg = ev.point
+            if isinstance(lam_p, Num) and any(M.same_value(x_arg, v) for cv in head.cells.values() for v in _leaves(cv)):
+                df = _differ(M, lam_p, lam_h, e.log, 19)
+                if df is False:
+                    vrest.append((True, ""))
+                else:
+                    vrest.append((False if df else None,
+                                  f"the sub-problem is started from the unchanged iterate of the loop head but with multipliers `{_short(M, lam_p)}` "
+                                  f"instead of those of the loop head: rejected second-order steps are not undone"))
+    for where, vs in sorted(v2.items()):
+        _agg(ctx, r2, sc, f"{label}:{where}:multipliers>=0", vs, "multipliers at the end are max(., 0) / provably non-negative")
+    for where, vs in sorted(v3.items()):
+        _agg(ctx, r3, sc, f"{label}:{where}:penalties-not-decreased", vs,
+             "kappa_end - kappa_start >= 0 for penalty_scaling >= 1 and positive penalties")
+    _agg(ctx, r4, sc, "lam<-max(lam-kappa*c,0)", v4, "the multipliers afterwards are max(lam - kappa*constraint(x_sub), 0)")
+    _agg(ctx, r2, sc, "rejected-second-order-step-restores-multipliers", vrest,
+         "whenever the sub-problem starts from the iterate of the loop head it also starts from the multipliers of the loop head")
 
 
-# ------------------------------------------------------------------ D3
+def substep_rules(ctx):
+    """the public first-order step solve_sub_step (when the library still has it), interpreted on its own: whatever multipliers /
+    penalties it is entered with, it leaves max(lam - kappa*constraint(x_sub), 0) and penalties that have not decreased"""
+    sub = ctx.repo.find(f"{AL}:solve_sub_step")
+    cls = ctx.need(f"{CO}:ConstrainedObjective")
+    if sub is None or len(sub.params()) < 6:
+        return
+    M = _machine(ctx)
+    obs = _DriverObs()
+    M.observer = obs
+    als = M.sym("alSettings")
+    M.domain[M.single_atom(M.mk_attr(als, "tol")).id] = "pos"
+    M.domain[M.single_atom(M.mk_attr(als, "penalty_scaling")).id] = ("ge", Fraction(1))
+    als_val = _settings_record(ctx, M, als)
+    ps = sub.params()
+    extra = {n: M.sym("arg:" + n) for n in ps[6:] + sub.kwonly()}
+    box = {}
 
-def d3(ctx):
-    rule = "D3/T3-penalties-never-decrease"
-    sc, cfg = _driver(ctx)
+    def thunk():
+        obj, sy = _new_objective(M, cls)
+        obs.obj = obj
+        lam, kap = M.sym("lam", "m"), M.sym("kappa", "m")
+        M.store_attr(obj, "lam", lam)
+        M.store_attr(obj, "kappa", kap)
+        L, K = _storage(M, obj, "lam"), _storage(M, obj, "kappa")
+        box.update(oid=obj.oid, L=L, K=K, head=S.Event("loophead", cells={("h", obj.oid, L): lam, ("h", obj.oid, K): kap, ("v", 0, "x"): M.sym("x", "n")}))
+        return M.call(_closure(M, sub), [obj, M.sym("x", "n"), M.sym("ncpErrorOld", "m"), als_val, M.sym("subSettings"), M.sym("arg:solver")], dict(extra))
+    ends = M.explore(thunk)
+    _touch_visited(ctx, M)
+    its = [(e, box["head"], dict(e.heap.get(box["oid"], {})), e.obs.get("sol"), "return") for e in ends if e.kind == "return"]
+    if its:
+        _check_ends(ctx, M, sub, box["oid"], its, "sub-step-end", "the first-order step", "the first-order step", box["L"], box["K"])
+
+
+def _writers_in_cone(ctx, info):
+    """every function of the call-graph cone that assigns `.lam` / `.kappa` must have been interpreted (its writes are part of the
+    path values above) -- otherwise there is a writer the value analysis did not see"""
+    M, sc = info["M"], info["sc"]
     bcs = ctx.need(f"{BCS}:bound_constrained_solve")
-    cone = ctx.cg.cone([sc], stop=lambda s: s.module.name.startswith(("optimism.phasefield", "optimism.material", "optimism.contact", "optimism.Mechanics", "optimism.FunctionSpace")))
-    sub = ctx.need(f"{AL}:solve_sub_step")
-    writers = _attr_writers(ctx, cone, "kappa")
-    scfg = cfg_of(sub)
-    sobj = sub.params()[0]
-    als = sub.params()[3]
-    n_sub = 0
-    for (s, st) in writers:
-        if s.qualname == f"{CO}:ConstrainedObjective.__init__":
-            ctx.proved(rule, s, st, construct="writer:constructor", detail="initial penalties set by the constructor")
-            continue
-        if s.qualname == f"{CO}:ConstrainedObjective.reset_kappa":
-            # reachable only through bound_constrained_solve (checked below)
-            callers = [c for c in cone if c is not s and any(isinstance(x.func, ast.Attribute) and x.func.attr == "reset_kappa" for x in calls_in(c))]
-            ctx.decide(rule, not callers, s, st, construct="writer:reset_kappa",
-                       detail="reset_kappa is not called from inside the AL solve cone",
-                       bad_detail=f"reset_kappa (which lowers penalties to their initial values) is called inside the solve by {[c.qualname for c in callers]}")
-            continue
-        if s is not sub:
-            ctx.undecided(rule, s, st, construct=f"writer:{s.qualname}", detail="unknown writer of `.kappa` inside the solve cone")
-            continue
-        n_sub += 1
-        node = scfg.node_for(st)
-        v = expand(scfg, node, st.value)
-        ok = False
-        why = "not of the form kappa.at[m].set(s*kappa[m]) / where(m, s*kappa, kappa)"
-        cur = f"{sobj}.kappa"
-        fac = f"{als}.penalty_scaling"
-        if isinstance(v, ast.Call) and isinstance(v.func, ast.Attribute) and v.func.attr == "set" and isinstance(v.func.value, ast.Subscript) \
-                and isinstance(v.func.value.value, ast.Attribute) and v.func.value.value.attr == "at" and len(v.args) == 1:
-            base = v.func.value.value.value
-            idx = v.func.value.slice
-            okb = same(base, cur)
-            oka = same(v.args[0], f"{fac} * {cur}[{src(idx)}]")
-            ok = okb and oka
-            why = f"base `{src(base)}` (must be the current {cur}), new entries `{src(v.args[0])}` (must be {fac} * current entries at the same index)"
-        elif isinstance(v, ast.Call) and (dotted(v.func) or "").split(".")[-1] in ("where", "if_then_else") and len(v.args) == 3:
-            ok = same(v.args[1], f"{fac} * {cur}") and same(v.args[2], cur)
-            why = f"selected entries `{src(v.args[1])}` (must be {fac} * {cur}), other entries `{src(v.args[2])}` (must be the current {cur})"
-        ctx.decide(rule, ok, sub, st, construct="sub-step-kappa-grows", detail=why,
-                   bad_detail=f"penalty update `{src(st)[:120]}`: {why}; a penalty parameter can decrease")
-    if n_sub < 1:
-        ctx.undecided(rule, sub, None, construct="sub-step-kappa-grows", detail="no penalty update found in solve_sub_step")
-    # bound-constrained front end: reset before the solve, never inside a loop
-    bcfg = cfg_of(bcs)
-    resets = [n for n in bcfg.nodes if n.kind == "stmt" and n.ast is not None and "reset_kappa" in src(n.ast)]
-    solves = [n for n in bcfg.nodes if n.kind == "stmt" and n.ast is not None and "augmented_lagrange_solve" in src(n.ast)]
-    if not solves:
-        raise Incomplete("bound_constrained_solve: AL solve call not found")
-    for rn in resets:
-        ok = all(bcfg.dominates(rn, s) for s in solves) and not rn.loops
-        ctx.decide(rule, ok, bcs, rn.ast, construct="front-end-reset-before-solve",
-                   detail="reset_kappa() happens once, before the AL solve",
-                   bad_detail="reset_kappa() is not a one-time call preceding the AL solve")
+    cone = ctx.cg.cone([sc, bcs], stop=lambda s: s.module.name.startswith(STOP_PREFIX))
+    seen = set(M.visited)
+    front = getattr(ctx, "_c04_front_end_visited", set())
+    for attr, rule in (("lam", "D2/T4-multipliers-nonnegative"), ("kappa", "D3/T3-penalties-never-decrease")):
+        done = set()
+        for (s, st) in _attr_writers(cone, attr):
+            if s.qualname in done:
+                continue
+            done.add(s.qualname)
+            if s.qualname in seen:
+                ctx.proved(rule, s, None, construct=f"writer-interpreted:{attr}", detail=f"writes of `.{attr}` in {s.shortname} are part of the interpreted paths")
+            elif s.qualname in front:
+                ctx.proved(rule, s, None, construct=f"writer-front-end:{attr}", detail="reached only through the bound-constrained front end (checked there)")
+            else:
+                ctx.undecided(rule, s, st, construct=f"writer:{s.qualname}", detail=f"writer of `.{attr}` inside the solve cone that the interpreted driver does not reach")
 
 
-# ------------------------------------------------------------------ D4
+# ------------------------------------------------------------------ D1/T5: what total_residual is
 
-def _penalty_where(ctx, fn_qual):
-    sc = ctx.need(fn_qual)
-    inner = [c for c in sc.children if c.kind == "function"]
-    if not inner:
-        raise Incomplete(f"{fn_qual}: inner Lagrangian not found")
-    f = inner[0]
-    fcfg = cfg_of(f)
-    for n in fcfg.nodes:
-        if n.kind == "stmt" and isinstance(n.ast, ast.Assign) and isinstance(n.ast.value, ast.Call) \
-                and (dotted(n.ast.value.func) or "").endswith("where") and len(n.ast.value.args) == 3:
-            return f, fcfg, n, n.ast.value
-    raise Incomplete(f"{fn_qual}: np.where penalty not found")
+def _understood(M, v, depth=0, seen=None):
+    """no part of the value is the result of an operation that was not interpreted"""
+    seen = seen if seen is not None else set()
+    if isinstance(v, Num):
+        for a in M.atoms_of(v):
+            if a.id in seen:
+                continue
+            seen.add(a.id)
+            if a.kind in ("ext", "fb", "new"):
+                return False
+            if a.kind == "item" and isinstance(a.parts[0], Num) and any(b.kind not in ("sym", "hav", "app", "attr", "item", "D") for b in M.atoms_of(a.parts[0])):
+                return False        # unresolved element / slice of a structured value
+            if depth < 10 and not all(_understood(M, p, depth + 1, seen) for p in a.parts):
+                return False
+        return True
+    if isinstance(v, (tuple, list)):
+        return all(_understood(M, x, depth + 1, seen) for x in v)
+    return True
+
+
+class _Collect:
+    """records the verdicts of one obligation per interpreted path; flush() emits one obligation per construct
+    (REFUTED if a path derives a contradiction, UNDECIDED if a path is not understood)"""
+
+    def __init__(self):
+        self.items = {}
+
+    def decide(self, rule, ok, scope=None, node=None, construct="", detail="", bad_detail=None):
+        self.items.setdefault((rule, scope, construct), []).append((ok, detail if ok else (bad_detail or detail)))
+
+    def proved(self, rule, scope=None, node=None, construct="", detail=""):
+        self.decide(rule, True, scope, node, construct, detail)
+
+    def undecided(self, rule, scope=None, node=None, construct="", detail=""):
+        self.decide(rule, None, scope, node, construct, detail)
+
+    def refuted(self, rule, scope=None, node=None, construct="", detail=""):
+        self.decide(rule, False, scope, node, construct, detail)
+
+    def flush(self, ctx):
+        for (rule, scope, construct), lst in self.items.items():
+            good = next((d for ok, d in lst if ok), "")
+            _agg(ctx, rule, scope, construct, lst, good)
+
+
+def _all_paths(M, thunk, what):
+    """run thunk on every path; it reports its results itself (appends to a list); at least one path must complete"""
+    ends = M.explore(thunk)
+    if not [e for e in ends if e.kind == "return"]:
+        raise EvalError(f"{what}: no path completes")
+    return ends
+
+
+def _fb_expected(M, c, l, k):
+    ck = M.mul(c, k)
+    return M.sub(M.sub(M.mk_sqrt(M.add(M.mul(ck, ck), M.mul(l, l))), ck), l)
+
+
+_NCP_POINTS = [((1.0, 0.0, 2.0), True), ((0.0, 3.0, 2.0), True), ((0.0, 0.0, 1.0), True), ((1.0, 1.0, 2.0), False), ((-1.0, 0.0, 2.0), False),
+               ((0.0, -2.0, 1.0), False), ((2.0, 0.5, 0.25), False), ((-0.5, 2.0, 3.0), False), ((3.0, 0.0, 0.5), True), ((0.0, 0.25, 4.0), True)]
+
+
+def _ncp_zero_set(M, v, c, l, ks):
+    """evaluate v(c, l, k) at the sample points; returns (ok, detail) -- ok None if v depends on something else"""
+    ids = {M.single_atom(c).id: 0, M.single_atom(l).id: 1}
+    for k in ks:
+        ids[M.single_atom(k).id] = 2
+    bad = []
+    for (pt, zero) in _NCP_POINTS:
+        s = S.Sampler(M, 0)
+        for i, j in ids.items():
+            s.env[i] = pt[j]
+
+        def strict_atom(a, s=s):
+            if a.id in s.env:
+                return s.env[a.id]
+            if a.kind in ("sqrt", "abs", "max", "min", "sel", "ind", "gm"):
+                return S.Sampler._atom(s, a)
+            raise S.NoSample(a.key)
+        s.atom = strict_atom
+        try:
+            val = s.num(v)
+        except S.NoSample as ex:
+            return None, f"depends on `{str(ex)[:80]}`"
+        if (abs(val) < 1e-12) != zero:
+            bad.append((pt, round(val, 6)))
+    if bad:
+        return False, f"value at (c, l, k) = {bad[0][0]} is {bad[0][1]}; zero there must be {'' if dict(_NCP_POINTS)[bad[0][0]] else 'im'}possible"
+    return True, "zero exactly on the complementarity samples"
+
+
+def d1_chain(ctx):
+    rule = "D1/T5-residual-chain"
+    cls = ctx.need(f"{CO}:ConstrainedObjective")
+    M = _machine(ctx)
+    boxes = []
+
+    def thunk():
+        box = {}
+        obj, sy = _new_objective(M, cls)
+        X, P, LAM, KAP = M.sym("X", "n"), M.sym("P"), M.sym("LAM", "m"), M.sym("KAP", "m")
+        M.domain[M.single_atom(KAP).id] = "pos"
+        for n, v in (("lam", LAM), ("kappa", KAP), ("p", P)):
+            M.getattr(obj, n)          # the constructor must have set it
+            M.store_attr(obj, n, v)
+        box.update(sy, obj=obj, X=X, P=P, LAM=LAM, KAP=KAP)
+        box["tr"] = M.call(M.getattr(obj, "total_residual"), [X], {})
+        box["L"] = M.call(M.getattr(obj, "create_augmented_lagrangian"), [sy["F"], sy["G"]], {})
+        box["c"] = M.call(sy["G"], [X, P], {})
+        try:
+            box["cr"] = M.call(M.getattr(obj, "constrained_residual"), [M.mk_hs([X, LAM])], {})
+        except EvalError as ex:
+            box["cr"] = ex
+        for nm in ("gradient", "ncp", "constraint"):
+            try:
+                box["m_" + nm] = M.call(M.getattr(obj, nm), [X], {})
+            except EvalError as ex:
+                box["m_" + nm] = ex
+        # extensional comparison of the differentiated function with the augmented Lagrangian
+        a = M.single_atom(box["tr"]) if isinstance(box["tr"], Num) else None
+        box["same_fn"] = None
+        if a is not None and a.kind == "hs":
+            d = M.single_atom(a.parts[0][0])
+            if d is not None and d.kind == "D":
+                fr = [M.sym("$a", "n"), M.sym("$b"), M.sym("$c", "m"), M.sym("$d", "m")]
+                try:
+                    v1 = _quiet_call(M, d.parts[0].f, fr)
+                    v2 = _quiet_call(M, box["L"], fr)
+                    box["same_fn"] = (_tri(_differ(M, v1, v2)), v1, v2) if isinstance(v1, Num) and isinstance(v2, Num) else None
+                except EvalError:
+                    box["same_fn"] = None
+        boxes.append(box)
+        return None
+    _all_paths(M, thunk, "ConstrainedObjective.total_residual")
+    _touch_visited(ctx, M)
+    tot = ctx.need(f"{CO}:ConstrainedObjective.total_residual")
+    col = _Collect()
+    for box in boxes:
+        _check_chain(col, rule, M, box, tot)
+    col.flush(ctx)
+    _check_fb_function(ctx, rule)
+
+
+def _check_chain(ctx, rule, M, box, tot):
+    tr = box["tr"]
+    a = M.single_atom(tr) if isinstance(tr, Num) else None
+    und = isinstance(tr, Num) and _understood(M, tr)
+    two = a is not None and a.kind == "hs" and len(a.parts[0]) == 2
+    ctx.decide(rule, True if two else (False if und and (a is None or a.kind != "hs") else None), tot, None, construct="total_residual:stack-of-two-blocks",
+               detail="total_residual(x) = hstack(x-block, constraint block)",
+               bad_detail=f"total_residual(x) evaluates to `{_short(M, tr)}`, not to a stack of a stationarity block and a complementarity block")
+    if not two:
+        return
+    gx, nb = a.parts[0]
+    # ---- x block
+    d = M.single_atom(gx)
+    want_args = (box["X"], box["P"], box["LAM"], box["KAP"])
+    if d is not None and d.kind == "D" and d.parts[0].kind == "D":
+        g, args = d.parts
+        ok_arg = g.argnums == 0
+        ok_pt = len(args) == 4 and all(isinstance(x, Num) and M.equal(x, y) for x, y in zip(args, want_args))
+        ctx.decide(rule, True if (ok_arg and ok_pt) else (False if _understood(M, tuple(args)) else None), tot, None, construct="x-block:gradient-wrt-x-at-current-state",
+                   detail="x-block = d/dx of a function at (x, p, lam, kappa) with the current parameters, multipliers and penalties",
+                   bad_detail=f"x-block is the derivative w.r.t. argument {g.argnums} at `{_short(M, tuple(args))}`; the stationarity block must be "
+                              f"d/d(argument 0) at (x, self.p, self.lam, self.kappa)")
+        sf = box["same_fn"]
+        ctx.decide(rule, None if sf is None else sf[0], tot, None, construct="x-block:differentiates-the-augmented-lagrangian",
+                   detail="the differentiated function coincides (applied to fresh arguments) with create_augmented_lagrangian(objective, constraint)",
+                   bad_detail=("the x-block differentiates `" + _short(M, sf[1]) + "`, the augmented Lagrangian is `" + _short(M, sf[2]) + "`") if sf else
+                   "could not apply the differentiated function / the augmented Lagrangian to fresh arguments")
+    else:
+        ctx.decide(rule, False if _understood(M, gx) else None, tot, None, construct="x-block:gradient-wrt-x-at-current-state",
+                   detail="", bad_detail=f"x-block of the residual is `{_short(M, gx)}`, not a derivative of the augmented Lagrangian")
+    # ---- complementarity block
+    c, l = box["c"], box["LAM"]
+    ks = [box["K0"], box["KAP"]]
+    hit = [k for k in ks if M.equal(nb, _fb_expected(M, c, l, k))]
+    if hit:
+        ctx.proved(rule, tot, None, construct="ncp-block:fischer-burmeister(constraint(x,p),lam,k>0)",
+                   detail="constraint block = sqrt((c k)^2 + lam^2) - c k - lam with c = constraint_func(x, p), the current multipliers and positive k")
+    else:
+        ok, det = _ncp_zero_set(M, nb, c, l, ks)
+        ctx.decide(rule, False if ok is False else None, tot, None, construct="ncp-block:fischer-burmeister(constraint(x,p),lam,k>0)",
+                   detail="", bad_detail=f"constraint block `{_short(M, nb)}` as a function of (c = constraint_func(x, p), lam, k): {det}; "
+                                         "it does not have the zero set {c >= 0, lam >= 0, c*lam = 0}" if ok is False else
+                   f"constraint block `{_short(M, nb)}` is not the Fischer-Burmeister function of (constraint_func(x, p), lam, k) and its zero set could not be decided ({det})")
+    # ---- the constraint inside the block is the one at the same point, and the public evaluators the driver uses for its progress
+    #      measure / multiplier update are these blocks
+    capps = [a_ for a_ in _find_atoms(M, nb, ("app",)) if isinstance(a_.parts[0], Num) and M.equal(a_.parts[0], box["G"])]
+    okc = bool(capps) and all(M.equal(M.anum(a_), c) for a_ in capps)
+    ctx.decide(rule, True if okc else (False if capps and _understood(M, nb) else None), tot, None, construct="ncp-block:constraint-at-the-same-point",
+               detail="the constraint block evaluates constraint_func at the x of the stationarity block and the current parameters",
+               bad_detail="the constraint block evaluates the constraint at `" + "; ".join(_short(M, tuple(a_.parts[1]), 80) for a_ in capps[:2]) + "`, not at (x, self.p)")
+    for nm, blk in (("gradient", gx), ("ncp", nb), ("constraint", c)):
+        v = box.get("m_" + nm)
+        ctx.decide(rule, True if isinstance(v, Num) and M.equal(v, blk) else None, tot, None, construct=f"{nm}(x)-is-the-block-of-the-residual",
+                   detail=f"objective.{nm}(x) coincides with the corresponding part of total_residual(x)",
+                   bad_detail=f"objective.{nm}(x) = `{_short(M, v) if isinstance(v, Num) else v}` is not the corresponding part `{_short(M, blk)}` of total_residual(x)")
+    # ---- the residual of the second-order update is the same function
+    cr = box["cr"]
+    if isinstance(cr, Num):
+        ctx.decide(rule, True if M.equal(cr, tr) else (False if _understood(M, cr) and _understood(M, tr) else None), tot, None, construct="constrained_residual(hstack(x,lam))=total_residual(x)",
+                   detail="the residual driven to zero by the second-order update is the tested residual",
+                   bad_detail=f"constrained_residual(hstack(x, lam)) = `{_short(M, cr)}` differs from total_residual(x)")
+    else:
+        ctx.undecided(rule, tot, None, construct="constrained_residual(hstack(x,lam))=total_residual(x)", detail=f"not evaluable: {cr}")
+
+
+def _check_fb_function(ctx, rule):
+    """the library's Fischer-Burmeister function itself (when it still exists as a function of (c, l, k))"""
+    fb = ctx.repo.find(f"{CO}:fischer_burmeister")
+    if fb is None or len(fb.params()) != 3:
+        return
+    M2 = _machine(ctx)
+    res = []
+
+    def thunk2():
+        cc, ll, kk = M2.sym("c"), M2.sym("l"), M2.sym("k")
+        res.append(dict(c=cc, l=ll, k=kk, v=M2.call(_closure(M2, fb), [cc, ll, kk], {})))
+    _all_paths(M2, thunk2, "fischer_burmeister")
+    ctx.touch(fb)
+    col = _Collect()
+    for b2 in res:
+        _check_fb(col, rule, M2, b2, fb)
+    col.flush(ctx)
+
+
+def _check_fb(ctx, rule, M2, b2, fb):
+    v = b2["v"]
+    if isinstance(v, Num) and M2.equal(v, _fb_expected(M2, b2["c"], b2["l"], b2["k"])):
+        ok, det = _ncp_zero_set(M2, v, b2["c"], b2["l"], [b2["k"]])
+        ctx.decide(rule, ok, fb, None, construct="fischer_burmeister", detail="normal form sqrt((ck)^2+l^2)-ck-l; " + det, bad_detail=det)
+    elif isinstance(v, Num):
+        ok, det = _ncp_zero_set(M2, v, b2["c"], b2["l"], [b2["k"]])
+        ctx.decide(rule, False if ok is False else None, fb, None, construct="fischer_burmeister", detail="",
+                   bad_detail=f"fischer_burmeister(c, l, k) = `{_short(M2, v)}` does not have the NCP zero set {{c>=0, l>=0, c*l=0}}: {det}")
+    else:
+        ctx.undecided(rule, fb, None, construct="fischer_burmeister", detail="not a numeric value")
+
+
+# ------------------------------------------------------------------ D4: GLUE identities of the penalty
+
+def _piecewise_atoms(M, v):
+    return [a for a in M.atoms_of(v) if a.kind in ("sel", "ind", "max", "min")]
+
+
+def _split(M, v, a):
+    """(condition formula, value where it holds, value where it does not) for one piecewise atom of v"""
+    if a.kind == "ind":
+        return a.parts[0], M.subst(v, {a.id: M.const(1)}), M.subst(v, {a.id: M.const(0)})
+    if a.kind == "sel":
+        f, x, y = a.parts
+    else:
+        x, y = a.parts
+        f = M.cmp_formula("GtE" if a.kind == "max" else "LtE", x, y)
+    return f, M.subst(v, {a.id: x}), M.subst(v, {a.id: y})
+
+
+def _penalty_parts(M, V, F, G, x, p, l, k):
+    """decompose an augmented Lagrangian value V = F(...) + sum(penalty(c, l, k)); raises EvalError with a reason"""
+    sums = [a for a in M.atoms_of(V) if a.kind == "sum"]
+    if len(sums) != 1:
+        raise EvalError(f"{len(sums)} summed terms in `{_short(M, V)}`")
+    Sm = sums[0]
+    rest = M.sub(V, M.anum(Sm))
+    if Sm.id in {a.id for a in M.atoms_of(rest)}:
+        raise EvalError("the summed penalty does not enter with weight one")
+    W = Sm.parts[0]
+    Gid, Fid = M.single_atom(G).id, M.single_atom(F).id
+
+    def apps_of(v, fid):
+        return [a for a in M.atoms_of(v) if a.kind == "app" and isinstance(a.parts[0], Num) and M.single_atom(a.parts[0]) is not None
+                and M.single_atom(a.parts[0]).id == fid]
+    cs = apps_of(W, Gid)
+    for a in M.atoms_of(W):
+        if a.kind in ("sel", "ind", "max", "min"):
+            for part in a.parts:
+                if isinstance(part, Num):
+                    cs += apps_of(part, Gid)
+                elif isinstance(part, tuple):
+                    for at in S.f_atoms(part):
+                        if at[0] in ("lt0", "le0", "eq0"):
+                            cs += apps_of(at[2], Gid)
+    cs = list({a.id: a for a in cs}.values())
+    return dict(W=W, rest=rest, c_atoms=cs, F_apps=apps_of(rest, Fid), sum=Sm)
+
+
+def _glue(ctx, rule, clsname, fscope, M, V, box):
+    x, p, l, k, F, G = (box[n] for n in ("x", "p", "l", "k", "F", "G"))
+    try:
+        P = _penalty_parts(M, V, F, G, x, p, l, k)
+    except EvalError as ex:
+        ctx.decide(rule, None, fscope, None,
+                   construct=f"{clsname}:lagrangian=objective+sum-of-penalty", detail="",
+                   bad_detail=f"augmented Lagrangian `{_short(M, V)}` is not objective + sum(penalty): {ex}")
+        return None
+    # objective + sum(penalty)
+    fa = P["F_apps"]
+    okF = len(fa) == 1 and M.equal(P["rest"], M.anum(fa[0])) and \
+        all(any(isinstance(z, Num) and M.equal(z, w) for z in fa[0].parts[1]) for w in (x, p))
+    ctx.decide(rule, True if okF else (False if _understood(M, P["rest"]) else None), fscope, None,
+               construct=f"{clsname}:lagrangian=objective+sum-of-penalty",
+               detail="L(x, p, l, k) = objective_func(x, .., p) + sum(penalty)",
+               bad_detail=f"besides sum(penalty) the augmented Lagrangian contains `{_short(M, P['rest'])}`, not the objective at (x, p)")
+    # the constraint value
+    cs = P["c_atoms"]
+    okc = len(cs) == 1 and len(cs[0].parts[1]) == 2 and M.equal(cs[0].parts[1][0], x) and M.equal(cs[0].parts[1][1], p)
+    ctx.decide(rule, True if okc else (False if cs else None), fscope, None, construct=f"{clsname}:c=constraint(x,p)",
+               detail="the penalty is a function of c = constraint_func(x, p)",
+               bad_detail="the penalty is evaluated on " + (", ".join(_short(M, M.anum(a)) for a in cs) or "no constraint value") + ", not on constraint_func(x, p)")
+    if not okc:
+        return None
+    c = M.anum(cs[0])
+    cid, lid, kid = cs[0].id, M.single_atom(l).id, M.single_atom(k).id
+    W = P["W"]
+    pw = _piecewise_atoms(M, W)
+    if len(pw) != 1:
+        ctx.undecided(rule, fscope, None, construct=f"{clsname}:switch", detail=f"penalty `{_short(M, W)}` has {len(pw)} piecewise terms (one switch expected)")
+        return None
+    f, A_t, A_f = _split(M, W, pw[0])
+    neg = False
+    g = f
+    if g[0] == "not":
+        g, neg = g[1], True
+    if g[0] not in ("lt0", "le0"):
+        ctx.undecided(rule, fscope, None, construct=f"{clsname}:switch", detail=f"penalty switch `{_short(M, Bv(f))}` is not a comparison")
+        return None
+    dn = g[2]
+    if dn.r.d != S.ONE or dn.r.n.degree_in(lid) != 1:
+        ctx.decide(rule, False if lid not in dn.r.n.atoms() else None, fscope, None, construct=f"{clsname}:switch", detail="",
+                   bad_detail=f"penalty switch `{_short(M, Bv(f))}` is not a threshold for the multiplier l")
+        return None
+    alpha = Num(S.Rat(dn.r.n.diff(lid), S.ONE))
+    surf = M.sub(l, M.div(dn, alpha))            # the value of l on the switching surface
+    want = M.mul(k, c)
+    ctx.decide(rule, M.equal(surf, want), fscope, None, construct=f"{clsname}:switch", detail="the penalty switches at l = k*c",
+               bad_detail=f"the penalty switches at l = `{_short(M, surf)}`, not at l = k*c")
+    # which arm is the active one (l >= k c)?
+    s = S.Sampler(M, 0)
+    s.env.update({lid: 10.0, kid: 1.0, cid: 0.5})
+    try:
+        active_true = s.formula(f)
+    except S.NoSample:
+        ctx.undecided(rule, fscope, None, construct=f"{clsname}:C0", detail="switch not evaluable")
+        return None
+    act, ina = (A_t, A_f) if active_true else (A_f, A_t)
+    on = lambda v: M.subst(v, {lid: surf})
+    v1, v2 = on(act), on(ina)
+    ctx.decide(rule, M.equal(v1, v2), fscope, None, construct=f"{clsname}:C0", detail=f"both arms equal `{_short(M, v1)}` on the switch",
+               bad_detail=f"penalty arms disagree on the switching surface: `{_short(M, v1)}` vs `{_short(M, v2)}`")
+    for nm, vid in (("c", cid), ("l", lid)):
+        g1, g2 = on(M.diff(act, vid)), on(M.diff(ina, vid))
+        ctx.decide(rule, M.equal(g1, g2), fscope, None, construct=f"{clsname}:C1:d/d{nm}", detail=f"derivatives w.r.t. {nm} agree on the switch (`{_short(M, g1)}`)",
+                   bad_detail=f"d/d{nm} of the penalty jumps across the switch: `{_short(M, g1)}` vs `{_short(M, g2)}`")
+    upd = M.sub(l, M.mul(k, c))
+    ng = M.neg(M.diff(act, cid))
+    ctx.decide(rule, M.equal(ng, upd), fscope, None, construct=f"{clsname}:update-is-negative-c-derivative", detail="-d(active arm)/dc = l - k*c",
+               bad_detail=f"-d(active arm)/dc = `{_short(M, ng)}`, but the first-order multiplier update uses l - k*c")
+    di = M.diff(ina, cid)
+    ctx.decide(rule, M.is_zero(di), fscope, None, construct=f"{clsname}:inactive-arm-flat-in-c", detail="inactive arm does not depend on c",
+               bad_detail=f"inactive arm depends on c: derivative `{_short(M, di)}`")
+    return dict(f=f, active_true=active_true, act=act, ina=ina, cid=cid, lid=lid, kid=kid)
 
 
 def d4(ctx):
     rule = "D4/T7-penalty-glue"
-    for qual in (f"{CO}:ConstrainedObjective.create_augmented_lagrangian", f"{CO}:ConstrainedQuasiObjective.create_augmented_lagrangian"):
-        f, fcfg, node, w = _penalty_where(ctx, qual)
-        ps = f.params()     # x, p, l, k
-        lname, kname = ps[2], ps[3]
-        cond, arm1, arm2 = w.args
-        cname = None
-        cdef = None
-        for nn in fcfg.nodes:
-            if nn.kind == "stmt" and isinstance(nn.ast, ast.Assign) and isinstance(nn.ast.targets[0], ast.Name) \
-                    and isinstance(nn.ast.value, ast.Call) and isinstance(nn.ast.value.func, ast.Name) \
-                    and nn.ast.value.func.id == f.parent.params()[-1]:
-                cname, cdef = nn.ast.targets[0].id, nn
-        if cname is None:
-            ctx.undecided(rule, f, w, construct="constraint-variable", detail="no `c = constraint_func(x, p)` definition found")
-            continue
-        # the constraint value is an atom `c`
-        A = Algebra()
+    for clsname in ("ConstrainedObjective", "ConstrainedQuasiObjective"):
+        cls = ctx.need(f"{CO}:{clsname}")
+        fscope = ctx.need(f"{CO}:{clsname}.create_augmented_lagrangian")
+        M = _machine(ctx)
+        boxes = []
+
+        def thunk():
+            obj, sy = _new_objective(M, cls)
+            x, p, l, k = M.sym("x", "n"), M.sym("p"), M.sym("l", "m"), M.sym("k", "m")
+            M.domain[M.single_atom(k).id] = "pos"
+            L = M.call(M.getattr(obj, "create_augmented_lagrangian"), [sy["F"], sy["G"]], {})
+            boxes.append(dict(sy, x=x, p=p, l=l, k=k, V=M.call(L, [x, p, l, k], {})))
         try:
-            a1, a2 = A.lower(arm1), A.lower(arm2)
-        except NotPolynomial as ex:
-            ctx.undecided(rule, f, w, construct=f"{f.parent.cls.name if f.parent.cls else ''}:arms", detail=f"cannot normalise: {ex}")
+            _all_paths(M, thunk, f"{clsname}.create_augmented_lagrangian")
+        except EvalError as ex:
+            ctx.undecided(rule, fscope, None, construct=f"{clsname}:lagrangian=objective+sum-of-penalty", detail=f"not interpretable: {ex}")
             continue
-        cls = f.parent.cls.name if f.parent and f.parent.cls else "?"
-        # switching surface from the condition: l >= k*c  / l > k*c
-        ok_sw = isinstance(cond, ast.Compare) and len(cond.ops) == 1 and isinstance(cond.ops[0], (ast.GtE, ast.Gt)) \
-            and isinstance(cond.left, ast.Name) and cond.left.id == lname
-        if not ok_sw:
-            ctx.refuted(rule, f, cond, construct=f"{cls}:switch", detail=f"penalty switch `{src(cond)}` is not `{lname} >= {kname}*c`")
-            continue
-        try:
-            surf = A.lower(cond.comparators[0])
-        except NotPolynomial as ex:
-            ctx.undecided(rule, f, cond, construct=f"{cls}:switch", detail=str(ex))
-            continue
-        want_surf = A.lower(ast.parse(f"{kname}*{cname}", mode="eval").body)
-        ctx.decide(rule, A.equal(surf, want_surf), f, cond, construct=f"{cls}:switch",
-                   detail=f"switch at {lname} = {surf}", bad_detail=f"penalty switches at {lname} = {surf}, not at {lname} = {kname}*{cname}")
-        # C0
-        v1, v2 = A.subst(a1, lname, surf), A.subst(a2, lname, surf)
-        ctx.decide(rule, A.equal(v1, v2), f, w, construct=f"{cls}:C0", detail=f"both arms equal {v1} on the switch",
-                   bad_detail=f"penalty arms disagree on the switching surface: {v1} vs {v2}")
-        # C1 in c and l
-        for var in (cname, lname):
-            g1, g2 = A.subst(A.diff(a1, var), lname, surf), A.subst(A.diff(a2, var), lname, surf)
-            ctx.decide(rule, A.equal(g1, g2), f, w, construct=f"{cls}:C1:d/d{var}",
-                       detail=f"derivatives w.r.t. {var} agree on the switch ({g1})",
-                       bad_detail=f"d/d{var} of the penalty jumps across the switch: {g1} vs {g2}")
-        # multiplier update = -d(arm_active)/dc  ;  inactive arm has zero c-derivative
-        upd = A.lower(ast.parse(f"{lname} - {kname}*{cname}", mode="eval").body)
-        neg = A.norm(-A.diff(a1, cname))
-        ctx.decide(rule, A.equal(neg, upd), f, arm1, construct=f"{cls}:update-is-negative-c-derivative",
-                   detail=f"-d(active arm)/dc = {neg}", bad_detail=f"-d(active arm)/dc = {neg}, but the first-order update uses {lname} - {kname}*c")
-        ctx.decide(rule, A.is_zero(A.diff(a2, cname)), f, arm2, construct=f"{cls}:inactive-arm-flat-in-c",
-                   detail="inactive arm does not depend on c", bad_detail=f"inactive arm depends on c: {A.diff(a2, cname)}")
-        # the returned Lagrangian adds sum(penalty) to the objective
-        rets = fcfg.returns()
-        okr = len(rets) == 1 and isinstance(rets[0].ast.value, ast.BinOp) and isinstance(rets[0].ast.value.op, ast.Add) \
-            and any(isinstance(x, ast.Call) and (dotted(x.func) or "").endswith("sum") and len(x.args) == 1 and isinstance(x.args[0], ast.Name)
-                    and single_def(fcfg, rets[0], x.args[0].id) is node for x in (rets[0].ast.value.left, rets[0].ast.value.right))
-        ctx.decide(rule, okr, f, rets[0].ast if rets else None, construct=f"{cls}:lagrangian=objective+sum-of-penalty",
-                   detail=src(rets[0].ast.value) if rets else "", bad_detail=f"augmented Lagrangian returns `{src(rets[0].ast.value) if rets else '?'}`")
-        okc = cdef is not None and same(def_value(cdef, cname), f"{f.parent.params()[-1]}({ps[0]}, {ps[1]})") and fcfg.same_value(cname, cdef, node) is not None
-        ctx.decide(rule, okc, f, cdef.ast if cdef else None, construct=f"{cls}:c=constraint(x,p)", detail="c = constraint_func(x, p)",
-                   bad_detail="penalty is not evaluated on constraint_func(x, p)")
-    # first-order update in solve_sub_step matches: maximum(lam - kappa*c, 0)
-    sub = ctx.need(f"{AL}:solve_sub_step")
-    scfg = cfg_of(sub)
-    sobj = sub.params()[0]
-    for n in scfg.nodes:
-        if n.kind == "stmt" and isinstance(n.ast, ast.Assign) and any(c == f"{sobj}.lam" for (c, w) in scfg.defs_of(n)):
-            v = n.ast.value
-            if isinstance(v, ast.Call) and len(v.args) == 2:
-                a = [x for x in v.args if const_value(x) != 0]
-                # the point at which the constraint is evaluated must be the sub-problem solution (returned point)
-                rets = scfg.returns()
-                X = None
-                if rets and isinstance(rets[0].ast.value, ast.Tuple) and isinstance(rets[0].ast.value.elts[0], ast.Name):
-                    X = rets[0].ast.value.elts[0].id
-                e = expand(scfg, n, a[0], stop=(X,) if X else ()) if a else None
-                B = Algebra()
-                try:
-                    ok = X is not None and B.equal(B.lower(e), B.lower(ast.parse(f"{sobj}.lam - {sobj}.kappa*{sobj}.constraint({X})", mode="eval").body)) \
-                        and scfg.same_value(X, n, rets[0])
-                except (NotPolynomial, TypeError):
-                    ok = None
-                ctx.decide("D4/T7-multiplier-update", ok, sub, n.ast, construct="lam<-max(lam-kappa*c,0)",
-                           detail=f"update argument normalises to lam - kappa*constraint(x) at the sub-problem solution",
-                           bad_detail=f"first-order multiplier update uses `{src(e)}`, not lam - kappa*constraint(x) at the returned point")
-    # preconditioner active-set test agrees with the switch
-    bco = ctx.need(f"{BCO}:BoundConstrainedObjective.__init__")
-    hit = 0
-    for c in calls_in(bco, local=False):
-        if (dotted(c.func) or "").endswith("where") and len(c.args) == 3:
-            t = c.args[0]
-            hit += 1
-            ok = isinstance(t, ast.Compare) and isinstance(t.ops[0], ast.GtE) and same(t.left, "lam") and \
-                (same(t.comparators[0], "c*kappa")) and same(c.args[1], "kappa") and const_value(c.args[2]) == 0
-            ctx.decide(rule, ok, bco, c, construct="preconditioner-active-set", detail=f"{src(c)}",
-                       bad_detail=f"preconditioner penalty stiffness `{src(c)}` disagrees with the penalty switch lam >= kappa*c (kappa on the active arm, 0 otherwise)")
-    if hit == 0:
-        ctx.undecided(rule, bco, None, construct="preconditioner-active-set", detail="np.where not found")
+        _touch_visited(ctx, M)
+        col = _Collect()
+        for box in boxes:
+            V = box["V"]
+            if not isinstance(V, Num):
+                col.undecided(rule, fscope, None, construct=f"{clsname}:lagrangian=objective+sum-of-penalty", detail="the augmented Lagrangian does not return a number")
+                continue
+            _glue(col, rule, clsname, fscope, M, V, box)
+        col.flush(ctx)
+    d4_preconditioner(ctx)
 
 
-def _sdeg(e, leaf, depth=10):
-    """Degree of `e` in the diagonal scaling s of the bound-constrained front end (xBar = s*x has degree 1); None if inhomogeneous/unknown."""
-    from fractions import Fraction as F
-    if depth <= 0:
-        return None
-    d = leaf(e)
-    if d is not None:
-        return d if d != "unknown" else None
-    if isinstance(e, ast.Constant):
-        return "any" if e.value == 0 and not isinstance(e.value, bool) else F(0)
-    if isinstance(e, ast.UnaryOp):
-        return _sdeg(e.operand, leaf, depth - 1)
-    if isinstance(e, ast.BinOp):
-        a, b = _sdeg(e.left, leaf, depth - 1), _sdeg(e.right, leaf, depth - 1)
-        if a is None or b is None:
+def _find_atoms(M, v, kinds, out=None, seen=None, depth=0):
+    out = out if out is not None else []
+    seen = seen if seen is not None else set()
+    if isinstance(v, Num):
+        for a in M.atoms_of(v):
+            if a.id in seen:
+                continue
+            seen.add(a.id)
+            if a.kind in kinds:
+                out.append(a)
+            if depth < 10:
+                for pt in a.parts:
+                    _find_atoms(M, pt, kinds, out, seen, depth + 1)
+    elif isinstance(v, (tuple, list)):
+        for x in v:
+            _find_atoms(M, x, kinds, out, seen, depth + 1)
+    return out
+
+
+def _values_with(M, v, kinds, out, seen=None, depth=0):
+    """the innermost numeric values (a value itself or an argument of one of its atoms) that mention an atom of the given kinds directly"""
+    seen = seen if seen is not None else set()
+    if isinstance(v, Num):
+        if any(a.kind in kinds for a in M.atoms_of(v)):
+            if M.nkey(v) not in seen:
+                seen.add(M.nkey(v))
+                out.append(v)
+            return
+        for a in M.atoms_of(v):
+            if a.id in seen or depth > 10:
+                continue
+            seen.add(a.id)
+            for pt in a.parts:
+                _values_with(M, pt, kinds, out, seen, depth + 1)
+    elif isinstance(v, (tuple, list)):
+        for x in v:
+            _values_with(M, x, kinds, out, seen, depth + 1)
+
+
+def _new_bound_objective(M, cls, truthy):
+    sy = dict(F=M.sym("F"), X0=M.sym("x0", "n"), P0=M.sym("p0"), IDX=M.sym("constrainedIndices"), CSS=M.sym("constraintStiffnessScaling"),
+              PS=M.sym("precondStrategy"))
+    M.domain[M.single_atom(sy["CSS"]).id] = "pos"
+    obj = M.call(S.ClassV(cls), [sy["F"], sy["X0"], sy["P0"], sy["IDX"], sy["CSS"], sy["PS"]], {})
+    if not isinstance(obj, S.Obj):
+        raise EvalError("constructor did not produce an object")
+    return obj, sy
+
+
+def _open_formula(f):
+    k = f[0]
+    if k == "le0":
+        return ("lt0", f[1], f[2])
+    if k == "eq0":
+        return S.F_FALSE
+    if k == "not":
+        return S.f_not(_open_formula(f[1]))
+    if k in ("and", "or"):
+        return (S.f_and if k == "and" else S.f_or)(*[_open_formula(g) for g in f[1]])
+    return f
+
+
+def _open_conditions(M, v, depth=0):
+    """v with every selection condition replaced by its interior (d <= 0 -> d < 0): two piecewise values that coincide after this
+    differ at most on the switching surfaces"""
+    mp = {}
+    for a in M.atoms_of(v):
+        if a.kind == "sel" and depth < 4:
+            f, x, y = a.parts
+            mp[a.id] = M.mk_sel(_open_formula(f), _open_conditions(M, x, depth + 1), _open_conditions(M, y, depth + 1))
+        elif a.kind == "ind":
+            mp[a.id] = M.mk_ind(_open_formula(a.parts[0]))
+    return M.subst(v, mp)
+
+
+def d4_preconditioner(ctx):
+    """the constraint part of the bound-constrained preconditioner is the second c-derivative of the penalty of the very objective"""
+    rule = "D4/T7-penalty-glue"
+    cls = ctx.need(f"{BCO}:BoundConstrainedObjective")
+    init = ctx.need(f"{BCO}:BoundConstrainedObjective.__init__")
+    M = _machine(ctx)
+    results = []
+
+    def thunk():
+        obj, sy = _new_bound_objective(M, cls, True)
+        # by role: the attribute that holds an object with the preconditioner-strategy interface
+        cands = [v for v in M.st.heap[obj.oid].values() if isinstance(v, S.Obj) and M.find_member(v.cls, "initialize") is not None]
+        if len(cands) != 1:
             return None
-        if isinstance(e.op, (ast.Mult, ast.MatMult, ast.Div)):
-            if "any" in (a, b):
-                return "any" if a == "any" else None
-            return a + b if not isinstance(e.op, ast.Div) else a - b
-        if isinstance(e.op, (ast.Add, ast.Sub)):
-            if a == "any":
-                return b
-            if b == "any":
-                return a
-            return a if a == b else None
+        ps = cands[0]
+        xb, p, lam, kap = M.sym("xBar", "n"), M.sym("p"), M.sym("lam", "m"), M.sym("kappa", "m")
+        M.domain[M.single_atom(kap).id] = "pos"
+        before = dict(M.st.heap[ps.oid])
+        M.call(M.getattr(ps, "initialize"), [xb, p, lam, kap], {})
+        new = [v for n, v in M.st.heap[ps.oid].items() if n not in before or not M.same_value(before[n], v)]
+        for n, v in (("lam", lam), ("kappa", kap), ("p", p)):
+            M.store_attr(obj, n, v)
+        val = M.call(M.getattr(obj, "value"), [xb], {})
+        c = M.call(M.getattr(obj, "constraint"), [xb], {})
+        results.append(dict(sy, M=M, new=new, val=val, c=c, xb=xb, p=p, l=lam, k=kap))
         return None
-    if isinstance(e, ast.Subscript):
-        return _sdeg(e.value, leaf, depth - 1)
-    if isinstance(e, ast.Call):
-        last = (dotted(e.func) or "").split(".")[-1]
-        if last in ("sqrt",) and e.args:
-            a = _sdeg(e.args[0], leaf, depth - 1)
-            return None if a is None else a / 2
-        if last in ("maximum", "minimum", "where") and e.args:
-            ds = [_sdeg(a, leaf, depth - 1) for a in e.args[-2:]]
-            nz = [d for a, d in zip(e.args[-2:], ds) if not (isinstance(a, ast.Constant) and a.value == 0)]
-            if any(d is None for d in nz):
+    M.explore(thunk)
+    _touch_visited(ctx, M)
+    if not results:
+        ctx.undecided(rule, init, None, construct="preconditioner-active-set", detail="no path builds a scaled preconditioner strategy")
+        return
+    verdicts = []
+    for r in results:
+        sels = []
+        for v in r["new"]:
+            _values_with(M, v, ("sel", "ind", "max", "min"), sels)
+        if not sels:
+            verdicts.append((None, "the preconditioner's constraint stiffness contains no active-set selection"))
+            continue
+        V, c = r["val"], r["c"]
+        ca = M.single_atom(c) if isinstance(c, Num) else None
+        if not isinstance(V, Num) or ca is None:
+            verdicts.append((None, "value / constraint of the bound-constrained objective not evaluable"))
+            continue
+        sums = [a for a in M.atoms_of(V) if a.kind == "sum"]
+        pw = _piecewise_atoms(M, sums[0].parts[0]) if len(sums) == 1 else []
+        if len(pw) != 1:
+            verdicts.append((None, "penalty of the bound-constrained objective not recognised"))
+            continue
+        f, A_t, A_f = _split(M, sums[0].parts[0], pw[0])
+        h_t, h_f = M.diff(M.diff(A_t, ca.id), ca.id), M.diff(M.diff(A_f, ca.id), ca.id)
+        want = M.mk_sel(f, h_t, h_f)
+        for got in sels:
+            df = _differ(M, _open_conditions(M, got), _open_conditions(M, want), (), 23)      # equal except on the switching surface itself
+            if df is False:
+                verdicts.append((True, ""))
+            else:
+                verdicts.append((False if df else None,
+                                 f"preconditioner penalty stiffness `{_short(M, got)}` disagrees with the second c-derivative of the penalty "
+                                 f"`{_short(M, want)}` (penalty stiffness on the active side of the switch lam >= kappa*c, 0 otherwise)"))
+    _agg(ctx, rule, init, "preconditioner-active-set", verdicts, "constraint stiffness of the preconditioner = d2(penalty)/dc2 of the objective's own penalty")
+
+
+# ------------------------------------------------------------------ D3: front end, settings
+
+def d3_front_end(ctx):
+    """bound_constrained_solve: penalties are written only before the AL solve is entered (a reset afterwards / in between would lower them)"""
+    rule = "D3/T3-penalties-never-decrease"
+    bcs = ctx.need(f"{BCS}:bound_constrained_solve")
+    drv = ctx.need(f"{AL}:augmented_lagrange_solve")
+    cls = ctx.need(f"{BCO}:BoundConstrainedObjective")
+    M = _machine(ctx, opaque={drv.qualname})
+    ps = bcs.params()
+    if len(ps) < 5:
+        raise Incomplete("bound_constrained_solve: fewer than 5 positional parameters")
+    extra = {n: M.sym("arg:" + n) for n in ps[5:] + bcs.kwonly()}
+    box = {}
+
+    def thunk():
+        obj, sy = _new_bound_objective(M, cls, True)
+        box["oid"] = obj.oid
+        box["K"] = _storage(M, obj, "kappa")
+        # penalties as left behind by an earlier solve
+        M.store_attr(obj, "kappa", M.sym("kappa_before", "m"))
+        return M.call(_closure(M, bcs), [obj, M.sym("x0", "n"), M.sym("p"), M.sym("alSettings"), M.sym("subSettings")], dict(extra))
+    ends = M.explore(thunk)
+    _touch_visited(ctx, M)
+    ctx._c04_front_end_visited = set(M.visited)
+    verdicts = []
+    nsolve = 0
+    for e in ends:
+        if e.kind != "return":
+            continue
+        calls = [ev for ev in e.events if ev.kind == "call" and ev.fname == "repo:" + drv.qualname]
+        if not calls:
+            verdicts.append((None, "a path of bound_constrained_solve returns without calling augmented_lagrange_solve"))
+            continue
+        nsolve += len(calls)
+        oid = None
+        for a in calls[0].args:
+            if isinstance(a, S.Obj):
+                oid = a.oid
+        if oid is None:
+            verdicts.append((None, "the AL solve is not handed the objective object"))
+            continue
+        k_in = calls[0].heap.get(oid, {}).get(box["K"])
+        k_end = e.heap.get(oid, {}).get(box["K"])
+
+        def left_by(call, v):
+            """v is what the (uninterpreted) solve `call` left in the attribute: nothing was written afterwards"""
+            a = M.single_atom(v) if isinstance(v, Num) else None
+            return a is not None and a.kind == "fb" and len(a.parts) > 1 and a.parts[1] and M.key(a.parts[1][0]) == M.key(call.result)
+        ok = isinstance(k_in, Num) and isinstance(k_end, Num) and (M.equal(k_in, k_end) or left_by(calls[-1], k_end)) and \
+            all(left_by(c0, c1.heap.get(oid, {}).get(box["K"])) for c0, c1 in zip(calls, calls[1:]))
+        verdicts.append((True, "") if ok else (False, f"penalties are `{_short(M, k_in)}` when the AL solve starts and `{_short(M, k_end)}` when "
+                                                      "bound_constrained_solve returns: the front end rewrites penalties after the solve started"))
+    _agg(ctx, rule, bcs, "front-end-writes-penalties-only-before-solve", verdicts, "penalties at the return are those at the start of the AL solve")
+    if not nsolve:
+        raise Incomplete("bound_constrained_solve: AL solve call not found on any path")
+
+
+def d3_settings(ctx):
+    """every settings constructor of AlSolver, interpreted on distinct symbols, puts each parameter into the field of its name"""
+    rule = "D3/T5-settings-wiring"
+    mod = ctx.need_module(AL)
+    n = 0
+    for sc in mod.scope.children:
+        if sc.kind != "function":
+            continue
+        M = _machine(ctx)
+        params = sc.params() + sc.kwonly()
+        if not params or sc.has_varargs() or sc.has_kwargs():
+            continue
+        box = {}
+
+        def thunk():
+            syms = {p: M.sym("param:" + p) for p in params}
+            box["syms"] = syms
+            return M.call(_closure(M, sc), [], dict(syms))
+        try:
+            M.max_paths, M.max_steps = 4, 20000
+            ends = M.explore(thunk)
+        except (EvalError, RecursionError):
+            continue
+        if len(ends) != 1 or not isinstance(ends[0].value, S.Rec):
+            continue
+        rec = ends[0].value
+        syms = box["syms"]
+        shared = [f for f in rec.nt.fields if f in syms]
+        by_key0 = {M.key(v) for v in syms.values()}
+        # a settings constructor only wires: every field is one of the parameters (or a constant)
+        if not shared or not all((isinstance(v, (Num, Bv)) and M.key(v) in by_key0) or (isinstance(v, Num) and M.is_const(v)) or
+                                 isinstance(v, (bool, str)) or v is None for v in rec.values):
+            continue
+        n += 1
+        bad = []
+        unk = []
+        by_key = {M.key(v): p for p, v in syms.items()}
+        for f in shared:
+            v = rec.get(f)
+            if isinstance(v, Num) and M.equal(v, syms[f]):
+                continue
+            src = by_key.get(M.key(v)) if isinstance(v, (Num, Bv)) else None
+            if src is not None:
+                bad.append((f, src))
+            else:
+                unk.append(f)
+        ok = False if bad else (None if unk else True)
+        ctx.decide(rule, ok, sc, None, construct=f"{sc.name}->{rec.nt.name}:parameters-to-same-named-fields",
+                   detail=f"{len(shared)} parameters fill the fields of their names",
+                   bad_detail=("; ".join(f"field `{f}` receives parameter `{s}`" for f, s in bad) or
+                               "fields " + ", ".join(unk) + " do not receive the parameter of the same name unchanged")
+                   + " (the fields are read by name everywhere else: a swapped pair silently exchanges two settings)")
+    if n < 1:
+        raise Incomplete(f"{AL}: no settings constructor found")
+# ------------------------------------------------------------------ D5: homogeneity degrees in the diagonal scaling
+
+class _Degrees:
+    """degree of homogeneity of interpreted values in the diagonal scaling s of the bound-constrained front end:
+    s: 1, xBar = s*x: 1, x and everything the caller supplies: 0, multipliers of the scaled problem (grad_xBar = grad_x / s): -1.
+    `None` = not homogeneous / not known, "any" = the constant 0."""
+
+    def __init__(self, M, atom_deg, typed):
+        self.M, self.atom_deg, self.typed = M, dict(atom_deg), typed
+        self.problems = []
+
+    def common(self, ds):
+        ds = [d for d in ds if d != "any"]
+        if any(d is None for d in ds):
+            return None
+        if not ds:
+            return "any"
+        return ds[0] if all(d == ds[0] for d in ds) else None
+
+    def poly(self, p):
+        ds = []
+        for m, c in p.t.items():
+            tot = Fraction(0)
+            for k, e in m:
+                d = self.atom(self.M.by_id[k])
+                if d is None:
+                    return None
+                if d == "any":
+                    tot = "any"
+                    break
+                tot += d * e
+            ds.append(tot)
+        if not ds:
+            return "any"
+        return self.common(ds)
+
+    def num(self, v):
+        if not isinstance(v, Num):
+            return None
+        n = self.poly(v.r.n)
+        if v.r.d == S.ONE or n is None or n == "any":
+            return n
+        d = self.poly(v.r.d)
+        if d is None or d == "any":
+            return None
+        return n - d
+
+    def args0(self, args):
+        """all numeric arguments are independent of the scaling"""
+        for a in args:
+            if isinstance(a, Num):
+                d = self.num(a)
+                if d is None or (d != "any" and d != 0):
+                    return False
+            elif isinstance(a, (tuple, list)):
+                if not self.args0(a):
+                    return False
+        return True
+
+    def atom(self, a):
+        if a.id in self.atom_deg:
+            return self.atom_deg[a.id]
+        d = self._atom(a)
+        self.atom_deg[a.id] = d
+        return d
+
+    def _atom(self, a):
+        M, k = self.M, a.kind
+        if k in ("sym", "hav", "size"):
+            return Fraction(0)
+        if k == "sqrt":
+            d = self.num(a.parts[0])
+            return d if d in (None, "any") else d / 2
+        if k == "abs":
+            return self.num(a.parts[0])
+        if k == "n2":
+            d = self.num(a.parts[0]) if isinstance(a.parts[0], Num) else None
+            return d if d in (None, "any") else 2 * d
+        if k == "sum":
+            return self.num(a.parts[0])
+        if k == "gm":
+            return self.atom(M.by_id[a.parts[0]])
+        if k in ("max", "min"):
+            return self.common([self.num(x) for x in a.parts])
+        if k == "sel":
+            return self.common([self.num(a.parts[1]), self.num(a.parts[2])])
+        if k == "ind":
+            return Fraction(0)
+        if k == "item":
+            b = a.parts[0]
+            if isinstance(b, Num):
+                return self.num(b)
+            if isinstance(b, tuple):
+                return self.common([self.num(x) if isinstance(x, Num) else None for x in b])
+            return None
+        if k == "attr":
+            return Fraction(0) if self.args0([a.parts[0]]) else None
+        if k == "mulmask":
+            d = self.num(a.parts[1])
+            return Fraction(0) if d in ("any", 0) else None
+        if k == "scatter":
+            name, base, idx, v = a.parts
+            db, dv = self.num(base), (self.num(v) if isinstance(v, Num) else None)
+            if name in ("set", "add", "min", "max"):
+                return self.common([db, dv])
+            return None
+        if k == "hs":
+            return self.common([self.num(x) for x in a.parts[0]])
+        if k in ("fb", "new"):
+            return None
+        if k in ("app", "ext", "op", "D"):
+            f, args = a.parts[0], a.parts[1]
+            t = self.typed(a)
+            if t is not None:
+                pos, need, out = t
+                d = self.num(args[pos]) if pos < len(args) and isinstance(args[pos], Num) else None
+                if need is None:
+                    return d
+                if d == need:
+                    return out
+                if d is not None and d != "any":
+                    self.problems.append((a, pos, d, need))
                 return None
-            return nz[0] if nz and all(d == nz[0] for d in nz) else (F(0) if not nz else None)
-        if last in ("ones_like",):
-            return F(0)
-        if last in ("array", "asarray", "abs") and e.args:
-            return _sdeg(e.args[0], leaf, depth - 1)
-    return None
+            return Fraction(0) if self.args0(args) else None
+        return None
 
 
 def d5_scaling(ctx):
-    """Bound-constrained front end: the AL solver works on xBar = s*x (s = diagonal scaling).  Degree typing in s:
-    xBar: 1, x: 0, objective arguments: 0, multipliers of the scaled problem: -1 (grad_xBar = grad_x / s), physical multipliers: 0.
-    The scaling variable is found by role: the factor s in `xBar0 = s * x0` that reaches the x0 slot of the base constructor."""
-    from fractions import Fraction as F
+    """Bound-constrained front end: the AL solver works on xBar = s*x (s = diagonal scaling).  The constructor, the accessors and the
+    front end are interpreted; every value is typed by its degree of homogeneity in s.  The scaling is found by role: the public
+    attribute `scaling` of the constructed object, whose part that comes from the preconditioner strategy generates the degree."""
     rule = "D5/T8-scaling-degrees"
+    cls = ctx.need(f"{BCO}:BoundConstrainedObjective")
     init = ctx.need(f"{BCO}:BoundConstrainedObjective.__init__")
-    cfg = cfg_of(init)
-    ps = init.params()           # self, objective_func, x0, p, constrainedIndices, ...
-    selfn, objf, x0 = ps[0], ps[1], ps[2]
-    sup = [c for c in calls_in(init) if isinstance(c.func, ast.Attribute) and c.func.attr == "__init__" and isinstance(c.func.value, ast.Call)
-           and src(c.func.value.func) == "super"]
-    if len(sup) != 1 or len(sup[0].args) < 5:
-        ctx.undecided(rule, init, None, construct="base-constructor-call", detail="super().__init__(objective, constraint, x0, p, lam0, kappa0, ...) not found")
-        return
-    sup = sup[0]
-    node = [n for n in cfg.nodes if n.ast is not None and any(x is sup for x in ast.walk(n.ast))][0]
-    xb = expand(cfg, node, sup.args[2], depth=1)
-    s_name = None
-    if isinstance(xb, ast.BinOp) and isinstance(xb.op, ast.Mult):
-        for a, b in ((xb.left, xb.right), (xb.right, xb.left)):
-            if isinstance(b, ast.Name) and b.id == x0 and isinstance(a, ast.Name):
-                s_name = a.id
-    ctx.decide(rule, s_name is not None, init, sup, construct="initial-iterate=s*x0", detail=f"scaled initial iterate `{src(xb)}`",
-               bad_detail=f"the initial iterate handed to the AL objective is `{src(xb)}`, not (scaling * x0)")
-    if s_name is None:
-        return
-    # locals: degree table built from definitions (all definitions of a name must agree)
-    local_deg = {s_name: F(1), x0: F(0)}
-
-    def leaf_local(e):
-        if isinstance(e, ast.Name):
-            if e.id in local_deg:
-                return local_deg[e.id]
-            return None
-        if isinstance(e, ast.Call):
-            # objective_func / grad(objective_func)(x, p): value or physical gradient of the unscaled objective: degree 0 if its argument is
-            f = e.func
-            inner = f.func if isinstance(f, ast.Call) else None
-            if (isinstance(f, ast.Name) and f.id == objf) or (inner is not None and any(isinstance(a, ast.Name) and a.id == objf for a in f.args)):
-                a0 = _sdeg(e.args[0], leaf_local) if e.args else None
-                return F(0) if a0 == 0 else "unknown"
-        return None
-    changed = True
-    while changed:
-        changed = False
-        for st in ast.walk(init.node):
-            if isinstance(st, ast.Assign) and len(st.targets) == 1 and isinstance(st.targets[0], ast.Name) and st.targets[0].id not in local_deg:
-                if isinstance(st.value, ast.Call) and (dotted(st.value.func) or "").split(".")[-1] == "ones_like":
-                    continue
-                d = _sdeg(st.value, leaf_local)
-                if d is not None:
-                    local_deg[st.targets[0].id] = d
-                    changed = True
-    # inverse scaling is 1/s wherever defined
-    inv = [st for st in ast.walk(init.node) if isinstance(st, ast.Assign) and isinstance(st.targets[0], ast.Name)
-           and isinstance(st.value, ast.BinOp) and isinstance(st.value.op, ast.Div) and isinstance(st.value.right, ast.Name) and st.value.right.id == s_name]
-    # multipliers handed to the base class
-    lam_d = _sdeg(expand(cfg, node, sup.args[4], depth=1), leaf_local)
-    ctx.decide(rule, lam_d == -1, init, sup, construct="initial-multipliers-degree", detail="lam0 = (grad f(x0) / s)[constrained]: degree -1",
-               bad_detail=f"initial multipliers `{src(expand(cfg, node, sup.args[4], depth=1))}` have scaling degree {lam_d}; the multipliers of the scaled problem are grad f / s (degree -1)")
-    # scaled objective: objective_func receives a degree-0 argument when xBar has degree 1
-    for c in init.children:
-        if c.kind != "function":
-            continue
-        cps = c.params()
-        calls = [k for k in calls_in(c) if isinstance(k.func, ast.Name) and k.func.id == objf]
-        if not calls:
-            continue
-        ccfg = cfg_of(c)
-        for k in calls:
-            nd = [n for n in ccfg.nodes if n.ast is not None and any(x is k for x in ast.walk(n.ast))][0]
-            arg = expand(ccfg, nd, k.args[0])
-            dd = _sdeg(arg, lambda e: (F(1) if isinstance(e, ast.Name) and e.id == cps[0] else local_deg.get(e.id) if isinstance(e, ast.Name) else None))
-            ctx.decide(rule, dd == 0, c, k, construct=f"{c.name}:objective-sees-unscaled-argument", detail=f"objective evaluated at `{src(arg)}` (degree 0)",
-                       bad_detail=f"{c.name} evaluates the user objective at `{src(arg)}` which has scaling degree {dd}: the objective must see x = xBar / s")
-    # attributes
-    attr_deg = {}
-    for st in ast.walk(init.node):
-        if isinstance(st, ast.Assign) and isinstance(st.targets[0], ast.Attribute) and isinstance(st.targets[0].value, ast.Name) and st.targets[0].value.id == selfn:
-            d = _sdeg(st.value, leaf_local)
-            if d is not None:
-                attr_deg[st.targets[0].attr] = d
-    attr_deg["lam"] = F(-1)
-    cls = init.parent
-    n_m = 0
-    for m in cls.children:
-        if m.kind != "function" or m is init or not m.name.startswith("get_"):
-            continue
-        mps = m.params()
-        xs = mps[1] if len(mps) > 1 else None
-
-        def leaf_m(e, mps=mps, xs=xs):
-            if isinstance(e, ast.Attribute) and isinstance(e.value, ast.Name) and e.value.id == mps[0]:
-                return attr_deg.get(e.attr, F(0) if e.attr in ("constrainedIndices",) else "unknown")
-            if isinstance(e, ast.Name) and e.id == xs:
-                return F(0)
-            if isinstance(e, ast.Call) and isinstance(e.func, ast.Attribute) and isinstance(e.func.value, ast.Name) and e.func.value.id == mps[0]:
-                # inherited evaluators take the scaled iterate
-                a0 = _sdeg(e.args[0], leaf_m) if e.args else None
-                return F(0) if a0 == 1 else "unknown"
-            return None
-        for r in m.returns():
-            n_m += 1
-            d = _sdeg(r, leaf_m)
-            ctx.decide(rule, d == 0, m, r, construct=f"{m.name}:physical-quantity", detail=f"`{src(r)}` has scaling degree 0",
-                       bad_detail=f"{m.name} returns `{src(r)}` whose scaling degree is {d}: values handed back to the caller must be in the "
-                                  f"caller's unscaled variables (multipliers of the scaled problem are grad f / s, iterates are s * x)")
-    if n_m < 4:
-        raise Incomplete(f"{n_m} accessor methods of BoundConstrainedObjective typed (4 expected)")
-    # front end
     bcs = ctx.need(f"{BCS}:bound_constrained_solve")
-    bps = bcs.params()
-    bcfg = cfg_of(bcs)
+    drv = ctx.need(f"{AL}:augmented_lagrange_solve")
+    base_methods = {}
+    for c in ctx.repo.class_mro(cls)[1:]:
+        for m in c.children:
+            # the inherited evaluators: methods of a point (properties, setters, the constructor and helpers without a point stay interpreted)
+            if m.kind == "function" and len(m.params()) >= 2 and not m.node.decorator_list and not m.name.startswith("__"):
+                base_methods.setdefault(m.qualname, m)
+    # public accessors of the front end (interface names get_*): they hand quantities back to the caller
+    accessors = sorted({m.name for m in cls.children if m.kind == "function" and m.name.startswith("get_")} |
+                       {n for n in cls.bindings if n.startswith("get_")})
+    acc_scope = {m.name: m for m in cls.children if m.kind == "function"}
+    M = _machine(ctx)
+    runs = []
 
-    name_deg = {}
-
-    def leaf_b(e):
-        if isinstance(e, ast.Attribute) and isinstance(e.value, ast.Name) and e.value.id == bps[0]:
-            return attr_deg.get(e.attr, "unknown")
-        if isinstance(e, ast.Name):
-            if e.id == bps[1]:
-                return F(0)
-            if e.id in name_deg:
-                return name_deg[e.id]
-            return None
-        if isinstance(e, ast.Call) and (dotted(e.func) or "").split(".")[-1] in ("augmented_lagrange_solve", "warm_start_increment"):
-            # the point argument is the callee's second parameter, however it is passed
-            pt_ = e.args[1] if len(e.args) > 1 else None
-            if pt_ is None:
-                for v_ in ctx.repo.resolve(e.func, bcs):
-                    if isinstance(v_, FuncVal) and len(v_.scope.params()) > 1:
-                        pt_ = actual(e, v_.scope.params(), v_.scope.params()[1])
-            a = _sdeg(pt_, leaf_b) if pt_ is not None else None
-            return F(1) if a == 1 else "unknown"
+    def thunk():
+        M.opaque_names = set()
+        obj, sy = _new_bound_objective(M, cls, True)
+        h = M.st.heap[obj.oid]
+        def attr(n):
+            try:
+                return M.getattr(obj, n)
+            except EvalError:
+                return None
+        r = dict(sy, obj=obj, scaling=attr("scaling"), inv=attr("invScaling"), lam0=attr("lam"), acc=[], M=M)
+        ps_atom = M.single_atom(sy["PS"])
+        r["trivial"] = isinstance(r["scaling"], Num) and not _mentions(M, r["scaling"], {ps_atom.id})
+        # the scaled objective as the AL solver sees it
+        xb, p = M.sym("xBar", "n"), M.sym("p")
+        lam, kap = M.sym("lamBar", "m"), M.sym("kappa", "m")
+        for n, v in (("lam", lam), ("kappa", kap), ("p", p)):
+            M.store_attr(obj, n, v)
+        r.update(xb=xb, lam=lam, p=p, kap=kap)
+        try:
+            r["value"] = M.call(M.getattr(obj, "value"), [xb], {})
+        except EvalError as ex:
+            r["value"] = ex
+        # accessors with the inherited evaluators as typed uninterpreted functions
+        M.opaque_names = set(base_methods)
+        x = M.sym("x", "n")
+        r["x"] = x
+        for nm in accessors:
+            try:
+                f = M.getattr(obj, nm)
+                params = M.callee_params(f)
+                if params is None or len(params) > 1:
+                    continue
+                r["acc"].append((nm, M.call(f, [x] * len(params), {})))
+            except EvalError as ex:
+                r["acc"].append((nm, ex))
+        # the front end
+        M.opaque_names = set(base_methods) | {drv.qualname}
+        x0 = M.sym("x0phys", "n")
+        r["x0f"] = x0
+        extra = {n: M.sym("arg:" + n) for n in bcs.params()[5:] + bcs.kwonly()}
+        try:
+            r["front"] = M.call(_closure(M, bcs), [obj, x0, M.sym("pNew"), M.sym("alSettings"), M.sym("subSettings")], dict(extra))
+        except (S._Raise,) as ex:
+            r["front"] = EvalError("raises")
+        runs.append(r)
         return None
-    # flow-insensitive: every definition of a local must have the same degree (a literal 0 fits any)
-    for _ in range(4):
-        for st in ast.walk(bcs.node):
-            tgt = val = None
-            if isinstance(st, ast.Assign) and len(st.targets) == 1 and isinstance(st.targets[0], ast.Name):
-                tgt, val = st.targets[0].id, st.value
-            elif isinstance(st, ast.AugAssign) and isinstance(st.target, ast.Name) and isinstance(st.op, (ast.Add, ast.Sub)):
-                tgt, val = st.target.id, st.value
-            if tgt is None:
+    M.explore(thunk)
+    _touch_visited(ctx, M)
+    for m in acc_scope.values():
+        if m.name in accessors:
+            ctx.touch(m)
+    scaled = [r for r in runs if not r["trivial"]]
+    if not scaled:
+        ctx.undecided(rule, init, None, construct="scaling", detail="no path of the constructor produces a non-trivial diagonal scaling")
+        return
+
+    def make_degrees(r):
+        s_val = r["scaling"]
+        ps_id = M.single_atom(r["PS"]).id
+        gens = [a for a in M.atoms_of(s_val) if _mentions(M, M.anum(a), {ps_id})]
+        if not isinstance(s_val, Num) or len(s_val.r.n.t) != 1 or len(s_val.r.d.t) != 1 or len(gens) != 1:
+            return None, f"scaling `{_short(M, s_val)}` is not a monomial in one quantity derived from the preconditioner strategy"
+        g = gens[0]
+        e = dict(next(iter(s_val.r.n.t))).get(g.id, 0) - dict(next(iter(s_val.r.d.t))).get(g.id, 0)
+        if e == 0:
+            return None, "scaling does not depend on its generator"
+        env = {g.id: Fraction(1, e), M.single_atom(r["xb"]).id: Fraction(1), M.single_atom(r["lam"]).id: Fraction(-1)}
+
+        def typed(a):
+            f = a.parts[0]
+            if isinstance(f, S.Closure):
+                q = f.scope.qualname
+                if q in base_methods and len(a.parts[1]) >= 2:
+                    return (1, Fraction(1), Fraction(0))        # inherited evaluator: takes the scaled iterate
+                if q == drv.qualname:
+                    return (1, None, None)                       # the solve returns a point of the kind it is given
+                if f.scope.name == "warm_start_increment":
+                    return (1, None, None)
+            return None
+        D = _Degrees(M, env, typed)
+        if D.num(s_val) != 1:
+            return None, f"scaling `{_short(M, s_val)}` is not homogeneous of degree one in its generator"
+        return D, None
+    vs = {}
+
+    def put(construct, scope, ok, good, bad):
+        vs.setdefault((construct, scope), []).append((ok, good if ok else bad))
+    for r in scaled:
+        D, why = make_degrees(r)
+        if D is None:
+            put("scaling", init, None, "", why)
+            continue
+        put("scaling", init, True, f"scaling `{_short(M, r['scaling'], 80)}` has degree 1", "")
+        # inverse scaling
+        inv = r["inv"]
+        if isinstance(inv, Num):
+            okv = _tri(_differ(M, M.mul(inv, r["scaling"]), M.const(1), (), 31))
+            put("invScaling*scaling=1", init, okv if okv is not None else (False if D.num(inv) not in (None, -1) else None),
+                "the attribute invScaling is the reciprocal of the attribute scaling",
+                f"invScaling `{_short(M, inv)}` is not the reciprocal of scaling `{_short(M, r['scaling'])}` (degree {D.num(inv)})")
+        else:
+            put("invScaling*scaling=1", init, None, "", "attribute invScaling is not set to a number")
+        # initial multipliers
+        d = D.num(r["lam0"]) if isinstance(r["lam0"], Num) else None
+        put("initial-multipliers-degree", init, True if d == -1 else (None if d is None else False), "lam0 = (grad f(x0) / s)[constrained]: degree -1",
+            f"initial multipliers `{_short(M, r['lam0'])}` have scaling degree {d}; the multipliers of the scaled problem are grad f / s (degree -1)")
+        # the objective sees x = xBar / s
+        V = r["value"]
+        if isinstance(V, Num):
+            fid = M.single_atom(r["F"]).id
+            fapps = [a for a in _find_atoms(M, V, ("app",)) if isinstance(a.parts[0], Num) and M.single_atom(a.parts[0]) is not None
+                     and M.single_atom(a.parts[0]).id == fid]
+            if not fapps:
+                put("objective-sees-unscaled-argument", init, None, "", "the value of the scaled objective does not call the user objective")
+            for a in fapps:
+                arg = a.parts[1][0] if a.parts[1] else None
+                dd = D.num(arg) if isinstance(arg, Num) else None
+                put("objective-sees-unscaled-argument", init, True if dd == 0 else (None if dd is None else False),
+                    f"objective evaluated at `{_short(M, arg, 80)}` (degree 0)",
+                    f"the scaled objective evaluates the user objective at `{_short(M, arg)}` which has scaling degree {dd} when its own argument "
+                    "xBar has degree 1: the objective must see x = xBar / s")
+        else:
+            put("objective-sees-unscaled-argument", init, None, "", f"value of the scaled objective not evaluable: {V}")
+        # accessors
+        for (nm, v) in r["acc"]:
+            m = acc_scope.get(nm, cls)
+            if not isinstance(v, Num):
+                put(f"{nm}:physical-quantity", m, None, "", f"not evaluable: {v}")
                 continue
-            d = _sdeg(val, leaf_b)
-            if d is None or d == "any":
-                continue
-            if tgt in name_deg and name_deg[tgt] != d:
-                name_deg[tgt] = "unknown"
-            elif tgt not in name_deg:
-                name_deg[tgt] = d
-    for r in bcs.returns():
-        ex = r
-        d = _sdeg(ex, leaf_b)
-        ctx.decide(rule, d == 0, bcs, r, construct="front-end:returns-unscaled-point", detail=f"`{src(ex)[:90]}` has degree 0",
-                   bad_detail=f"bound_constrained_solve returns `{src(ex)[:120]}` with scaling degree {d}: the AL solve works on s*x and the result must be divided by s")
+            D.problems = []
+            dd = D.num(v)
+            if dd == 0 or dd == "any":
+                put(f"{nm}:physical-quantity", m, True, f"`{_short(M, v, 100)}` has scaling degree 0", "")
+            elif D.problems:
+                a, pos, got, need = D.problems[0]
+                put(f"{nm}:physical-quantity", m, False, "",
+                    f"{nm} calls the inherited evaluator {a.parts[0].scope.name} with `{_short(M, a.parts[1][pos])}` of scaling degree {got}: "
+                    f"inherited evaluators take the scaled iterate s * x (degree 1)")
+            else:
+                put(f"{nm}:physical-quantity", m, None if dd is None else False, "",
+                    f"{nm} returns `{_short(M, v)}` whose scaling degree is {dd}: values handed back to the caller must be in the "
+                    f"caller's unscaled variables (multipliers of the scaled problem are grad f / s, iterates are s * x)")
+        # front end
+        fr = r["front"]
+        if isinstance(fr, Num):
+            D.problems = []
+            dd = D.num(fr)
+            put("front-end:returns-unscaled-point", bcs, True if dd == 0 else (None if dd is None else False), f"`{_short(M, fr, 100)}` has degree 0",
+                f"bound_constrained_solve returns `{_short(M, fr)}` with scaling degree {dd}: the AL solve works on s*x and the result must be divided by s")
+            solves = [a for a in _find_atoms(M, fr, ("app",)) if isinstance(a.parts[0], S.Closure) and a.parts[0].scope.qualname == drv.qualname]
+            for a in solves:
+                pt = a.parts[1][1] if len(a.parts[1]) > 1 else None
+                dp = D.num(pt) if isinstance(pt, Num) else None
+                put("front-end:solve-starts-from-scaled-point", bcs, True if dp == 1 else (None if dp is None else False),
+                    "the AL solve is started from a point of degree 1",
+                    f"the AL solve is started from `{_short(M, pt)}` of scaling degree {dp}; the scaled problem is posed in xBar = s * x (degree 1)")
+        else:
+            put("front-end:returns-unscaled-point", bcs, None, "", f"bound_constrained_solve not evaluable: {fr}")
+    n_acc = 0
+    for (construct, scope), lst in sorted(vs.items(), key=lambda kv: kv[0][0]):
+        _agg(ctx, rule, scope, construct, lst, lst[0][1] if lst[0][0] else "")
+        n_acc += construct.endswith(":physical-quantity")
+    if n_acc < 1:
+        raise Incomplete("no accessor of BoundConstrainedObjective typed")
+
+
+def _two_subs(func, first, second):
+    from optilint.selftest import sub_in_func
+
+    def f(src):
+        t = sub_in_func(func, first[0], first[1])(src)
+        if t is None or t.count(second[0]) != 1:
+            return None
+        return t.replace(second[0], second[1])
+    return f
 
 
 def variants(repo):
     from optilint.selftest import Variant, sub, sub_in_func, alpha_rename, reformat
+    from .C04_variants import restructure as R
     A = "optimism/AlSolver.py"
     C = "optimism/ConstrainedObjective.py"
     B = "optimism/BoundConstrainedSolver.py"
+    O = "optimism/BoundConstrainedObjective.py"
     D = "augmented_lagrange_solve"
+    D1, D15, D2, D3, D4u, D4, D5 = ("D1/T1-terminate-on-full-residual", "D1/T5-residual-chain", "D2/T4-multipliers-nonnegative",
+                                   "D3/T3-penalties-never-decrease", "D4/T7-multiplier-update", "D4/T7-penalty-glue", "D5/T8-scaling-degrees")
     return [
-        Variant("multipliers unscaled with the inverse", "optimism/BoundConstrainedObjective.py", sub("        return self.lam * self.scaling[self.constrainedIndices]", "        return self.lam * self.invScaling[self.constrainedIndices]"), "D5/T8-scaling-degrees"),
-        Variant("objective evaluated at scaled point", "optimism/BoundConstrainedObjective.py", sub("            x = invScaling * xBar\n", "            x = scaling * xBar\n"), "D5/T8-scaling-degrees"),
-        Variant("front end returns the scaled point", "optimism/BoundConstrainedSolver.py", sub("    return boundConstrainedObjective.invScaling * xBar", "    return boundConstrainedObjective.scaling * xBar"), "D5/T8-scaling-degrees"),
-        Variant("accessor passes unscaled point", "optimism/BoundConstrainedObjective.py", sub("        return self.gradient(self.scaling * x)", "        return self.gradient(x)"), "D5/T8-scaling-degrees"),
-        Variant("settings fields swapped", "optimism/AlSolver.py", sub("    return Settings(penalty_scaling,\n                    target_constraint_decrease_factor,", "    return Settings(target_constraint_decrease_factor,\n                    penalty_scaling,"), "D3/T5-settings-wiring"),
-        Variant("alpha-rename bound constrained solve", "optimism/BoundConstrainedSolver.py", alpha_rename("bound_constrained_solve"), None),
-        Variant("return on force residual", A, sub_in_func(D, "            if errorNorm < alSettings.tol:", "            if forceErrorNorm < alSettings.tol:"), "D1/T1-terminate-on-full-residual"),
-        Variant("sub-problem tolerance", A, sub_in_func(D, "            if errorNorm < alSettings.tol:", "            if errorNorm < settings.tol:"), "D1/T1-terminate-on-full-residual"),
-        Variant("residual drops NCP block", C, sub("            return np.hstack( (grad_x(x,p,l,k),\n                               ncp_func(x,p,l) ) )", "            return np.hstack( (grad_x(x,p,l,k),\n                               0.0*ncp_func(x,p,l) ) )"), "D1/T5-residual-chain"),
-        Variant("FB sign", C, sub("    return np.sqrt(ck**2 + l**2) - ck - l", "    return np.sqrt(ck**2 + l**2) - ck + l"), "D1/T5-residual-chain"),
-        Variant("drop maximum", A, sub("alObjective.lam = np.maximum(alObjective.lam-kappa*c, 0.0)", "alObjective.lam = alObjective.lam-kappa*c"), "D2/T4-multipliers-nonnegative"),
-        Variant("sign of kappa*c", A, sub("alObjective.lam = np.maximum(alObjective.lam-kappa*c, 0.0)", "alObjective.lam = np.maximum(alObjective.lam+kappa*c, 0.0)"), "D4/T7-multiplier-update"),
-        Variant("newton-only style skip of sub step", A, sub_in_func(D, "        if not alSettings.use_newton_only:", "        if not alSettings.use_newton_only and it % 2 == 0:"), "D2/T4-multipliers-nonnegative"),
-        Variant("kappa / scaling", A, sub("set(alSettings.penalty_scaling*kappa[poorProgress])", "set(kappa[poorProgress]/alSettings.penalty_scaling)"), "D3/T3-penalties-never-decrease"),
-        Variant("scatter into initial kappa", A, sub("alObjective.kappa = kappa.at[poorProgress]", "alObjective.kappa = alObjective.constraintKappa.at[poorProgress]"), "D3/T3-penalties-never-decrease"),
-        Variant("reset_kappa in loop", A, sub_in_func(D, "        if callback: callback(x, alObjective.p)\n        \n        updatePrecond=False", "        if callback: callback(x, alObjective.p)\n        alObjective.reset_kappa()\n        updatePrecond=False"), "D3/T3-penalties-never-decrease"),
-        Variant("edit active arm", C, sub_in_func("ConstrainedObjective.create_augmented_lagrangian", "-c*l + 0.5*k*c*c", "-c*l + k*c*c"), "D4/T7-penalty-glue"),
-        Variant("edit inactive arm", C, sub_in_func("ConstrainedObjective.create_augmented_lagrangian", "-0.5*l*l/k", "-0.5*l*l"), "D4/T7-penalty-glue"),
-        Variant("edit switch", C, sub_in_func("ConstrainedObjective.create_augmented_lagrangian", "np.where( l >= k*c,", "np.where( l >= -k*c,"), "D4/T7-penalty-glue"),
+        Variant("multipliers unscaled with the inverse", O, sub("        return self.lam * self.scaling[self.constrainedIndices]", "        return self.lam * self.invScaling[self.constrainedIndices]"), D5),
+        Variant("objective evaluated at scaled point", O, sub("            x = invScaling * xBar\n", "            x = scaling * xBar\n"), D5),
+        Variant("front end returns the scaled point", B, sub("    return boundConstrainedObjective.invScaling * xBar", "    return boundConstrainedObjective.scaling * xBar"), D5),
+        Variant("accessor passes unscaled point", O, sub("        return self.gradient(self.scaling * x)", "        return self.gradient(x)"), D5),
+        Variant("initial multipliers scaled the wrong way", O, sub("lam0 = (grad(objective_func,0)(x0, p)*invScaling)[constrainedIndices]", "lam0 = (grad(objective_func,0)(x0, p)*scaling)[constrainedIndices]"), D5),
+        Variant("AL solve started from the unscaled point", B, sub("    xBar = AlSolver.augmented_lagrange_solve(boundConstrainedObjective,\n                                             xBar0, p,", "    xBar = AlSolver.augmented_lagrange_solve(boundConstrainedObjective,\n                                             x0, p,"), D5),
+        Variant("settings fields swapped", A, sub("    return Settings(penalty_scaling,\n                    target_constraint_decrease_factor,", "    return Settings(target_constraint_decrease_factor,\n                    penalty_scaling,"), "D3/T5-settings-wiring"),
+        Variant("alpha-rename bound constrained solve", B, alpha_rename("bound_constrained_solve"), None),
+        Variant("return on force residual", A, sub_in_func(D, "            if errorNorm < alSettings.tol:", "            if forceErrorNorm < alSettings.tol:"), D1),
+        Variant("sub-problem tolerance", A, sub_in_func(D, "            if errorNorm < alSettings.tol:", "            if errorNorm < settings.tol:"), D1),
+        Variant("ten times the tolerance", A, sub_in_func(D, "            if errorNorm < alSettings.tol:", "            if errorNorm < 10*alSettings.tol:"), D1),
+        Variant("residual measured before the multiplier update", A, _two_subs(
+            D, ("            x, ncpError, solverSuccess = solve_sub_step(", "            errorNorm = norm(alObjective.total_residual(x))\n            x, ncpError, solverSuccess = solve_sub_step("),
+            ("            errorNorm = norm(alObjective.total_residual(x))\n            print('total error = ', errorNorm)", "            print('total error = ', errorNorm)")), D1),
+        Variant("give up quietly after a few iterations", A, sub_in_func(D, "            if errorNorm < alSettings.tol:", "            if errorNorm < alSettings.tol or it > 20:"), D1),
+        Variant("residual drops NCP block", C, sub("            return np.hstack( (grad_x(x,p,l,k),\n                               ncp_func(x,p,l) ) )", "            return np.hstack( (grad_x(x,p,l,k),\n                               0.0*ncp_func(x,p,l) ) )"), D15),
+        Variant("residual differentiates w.r.t. the multipliers", C, sub("        grad_x = grad(f,0)\n", "        grad_x = grad(f,2)\n"), D15),
+        Variant("NCP block on stale multipliers", C, sub("        return self.constrained_residual(np.hstack((x,self.lam)))", "        return self.constrained_residual(np.hstack((x,0.0*self.lam)))"), D15),
+        Variant("FB sign", C, sub("    return np.sqrt(ck**2 + l**2) - ck - l", "    return np.sqrt(ck**2 + l**2) - ck + l"), D15),
+        Variant("drop maximum", A, sub("alObjective.lam = np.maximum(alObjective.lam-kappa*c, 0.0)", "alObjective.lam = alObjective.lam-kappa*c"), D2),
+        Variant("projection onto the wrong side", A, sub("alObjective.lam = np.maximum(alObjective.lam-kappa*c, 0.0)", "alObjective.lam = np.minimum(alObjective.lam-kappa*c, 0.0)"), D2),
+        Variant("sign of kappa*c", A, sub("alObjective.lam = np.maximum(alObjective.lam-kappa*c, 0.0)", "alObjective.lam = np.maximum(alObjective.lam+kappa*c, 0.0)"), D4u),
+        Variant("constraint at the old point", A, sub("    x, solverSuccess = sub_problem_solver(alObjective, x, subSettings, sub_problem_callback)\n    \n    c = alObjective.constraint(x)",
+                                                      "    c = alObjective.constraint(x)\n    x, solverSuccess = sub_problem_solver(alObjective, x, subSettings, sub_problem_callback)\n    "), D4u),
+        Variant("newton-only style skip of sub step", A, sub_in_func(D, "        if not alSettings.use_newton_only:", "        if not alSettings.use_newton_only and it % 2 == 0:"), D2),
+        Variant("line search does not restore the multipliers", A, sub_in_func(D, "                    alObjective.lam = lamSave\n", "                    pass\n"), D2),
+        Variant("kappa / scaling", A, sub("set(alSettings.penalty_scaling*kappa[poorProgress])", "set(kappa[poorProgress]/alSettings.penalty_scaling)"), D3),
+        Variant("scatter into initial kappa", A, sub("alObjective.kappa = kappa.at[poorProgress]", "alObjective.kappa = alObjective.constraintKappa.at[poorProgress]"), D3),
+        Variant("reset_kappa in loop", A, sub_in_func(D, "        if callback: callback(x, alObjective.p)\n        \n        updatePrecond=False", "        if callback: callback(x, alObjective.p)\n        alObjective.reset_kappa()\n        updatePrecond=False"), D3),
+        Variant("penalties of good constraints relaxed", A, sub("        alObjective.kappa = kappa.at[poorProgress].set(alSettings.penalty_scaling*kappa[poorProgress])",
+                                                                "        alObjective.kappa = np.where(poorProgress, alSettings.penalty_scaling*kappa, 0.5*kappa)"), D3),
+        Variant("edit active arm", C, sub_in_func("ConstrainedObjective.create_augmented_lagrangian", "-c*l + 0.5*k*c*c", "-c*l + k*c*c"), D4),
+        Variant("edit inactive arm", C, sub_in_func("ConstrainedObjective.create_augmented_lagrangian", "-0.5*l*l/k", "-0.5*l*l"), D4),
+        Variant("edit switch", C, sub_in_func("ConstrainedObjective.create_augmented_lagrangian", "np.where( l >= k*c,", "np.where( l >= -k*c,"), D4),
+        Variant("penalty not summed into the objective", C, sub_in_func("ConstrainedObjective.create_augmented_lagrangian", "return objective_func(x, p) + np.sum(penalty)", "return 2.0*objective_func(x, p) + np.sum(penalty)"), D4),
+        Variant("preconditioner active set flipped", O, sub("np.where(lam >= c*kappa, kappa, 0.0)", "np.where(lam <= c*kappa, kappa, 0.0)"), D4),
         Variant("reformat AlSolver", A, reformat(), None),
         Variant("reformat ConstrainedObjective", C, reformat(), None),
         Variant("alpha-rename driver", A, alpha_rename(D), None),
         Variant("alpha-rename solve_sub_step", A, alpha_rename("solve_sub_step"), None),
+        # behaviour-preserving restructurings (rules/C04_variants.py) and violating edits on top of them
+        Variant("restructured driver: while loop, record carry, dict dispatch, clip / where", A, R("x1:" + A), None),
+        Variant("restructured objective: classical penalty form, hypot, size arithmetic split", C, R("x2:" + C), None),
+        Variant("restructured bound objective: scaling helper, partial, keyword base constructor", O, R("x3:" + O), None),
+        Variant("restructured front end: local aliases, ** options", B, R("x3:" + B), None),
+        Variant("restructured driver: nonlocal closure, partial sub step, guard clause", A, R("x4:" + A), None),
+        Variant("restructured driver: mutable iterate object, helper line search, index scatter", A, R("x5:" + A), None),
+        Variant("restructured driver: dict state, callable line-search class defined in the driver", A, R("x6:" + A), None),
+        Variant("restructured objective: multipliers behind a property / setter", C, R("x6:" + C), None),
+        Variant("restructured driver: recursion line search, SimpleNamespace, decorator, mask arithmetic, einsum, walrus, try/finally", A, R("x7:" + A), None),
+        Variant("restructured objective: value_and_grad, np.split", C, R("x7:" + C), None),
+        Variant("x7 + mask with a negative threshold", A, R("x7:" + A, ("    positive = shifted > 0.0", "    positive = shifted > -1.0")), D2),
+        Variant("x7 + growth factor below one", A, R("x7:" + A, ("grow = poorProgress*(alSettings.penalty_scaling - 1.0)", "grow = poorProgress*(alSettings.penalty_scaling - 2.0)")), D3),
+        Variant("x6 + line search keeps rejected multipliers", A, R("x6:" + A, ("                alObjective.lam = lamSave\n                dx *= 0.2", "                dx *= 0.2")), D2),
+        # restructurings written by an independent engineer who knew only the property text (per file; pieces that need the other files are left out)
+        Variant("indep 1: slots state object, count-down while line search, dict of thunks, dict result", A, R("i1:" + A), None),
+        Variant("indep 2: partials / bound methods / callable class, lam and kappa as properties", C, R("i2:" + C), None),
+        Variant("indep 2: bound objective closures as partials, accessors through helpers", O, R("i2:" + O), None),
+        Variant("indep 3: expression level rewrites (driver)", A, R("i3:" + A), None),
+        Variant("indep 3: expression level rewrites (objective)", C, R("i3:" + C), None),
+        Variant("indep 3: expression level rewrites (bound objective)", O, R("i3:" + O), None),
+        Variant("indep 3: expression level rewrites (front end, positional solve call, np.multiply)", B, R("i3:" + B), None),
+        Variant("indep 4: accessor factory in the class body, scaling helpers", O, R("i4:" + O), None),
+        Variant("indep 4: multiplier / penalty update methods on the objective", C, R("i4:" + C), None),
+        Variant("indep 5: recursion line search, zip(range, chain(..., repeat)), walrus, any(generator over array)", A, R("j1:" + A), None),
+        Variant("indep 5: front end with walrus / merged guards", B, R("j1:" + B), None),
+        Variant("indep 6: mixin dispatch by name, setattr table of jits, value_and_grad / jacfwd(jacrev)", C, R("j2:" + C), None),
+        Variant("indep 6: accessors by __getattr__ delegation", O, R("j2:" + O), None),
+        Variant("indep 7: decorator around the sub step, context manager for trial multipliers, private exception", A, R("j3:" + A), None),
+        Variant("indep 8: objective gains kkt_error / append_multipliers", C, R("j4:" + C), None),
+        Variant("indep 8: front end with local imports and ** forwarding", B, R("j4:" + B), None),
+        Variant("indep 9: operator module / lax primitives / 0-1 masks (driver)", A, R("j5:" + A), None),
+        Variant("indep 9: operator module / reduce / einsum (objective)", C, R("j5:" + C), None),
+        Variant("indep 9: operator.methodcaller accessors", O, R("j5:" + O), None),
+        Variant("indep 9: operator spelling (front end)", B, R("j5:" + B), None),
+        Variant("best error so far instead of the current one", A, sub_in_func(D, "            errorNorm = norm(alObjective.total_residual(x))\n", "            errorNorm = np.minimum(errorNorm, norm(alObjective.total_residual(x)))\n"), D1),
+        Variant("tolerance relaxed to the sub-problem tolerance", A, sub_in_func(D, "            if errorNorm < alSettings.tol:", "            if errorNorm < np.maximum(alSettings.tol, settings.tol):"), D1),
+        Variant("projection only after a successful sub-problem solve", A, sub("    alObjective.lam = np.maximum(alObjective.lam-kappa*c, 0.0)\n", "    if solverSuccess:\n        alObjective.lam = np.maximum(alObjective.lam-kappa*c, 0.0)\n"), D2),
+        Variant("parameters not installed without warm start", A, sub_in_func(D, "        alObjective.p = p\n    else:\n        alObjective.p = p\n", "        alObjective.p = p\n"), D1),
+        Variant("newton-only mode hands back the last iterate", A, sub_in_func(D, "    raise NameError('Loadstep failed to converge in', maxAlIters, 'iterations.')\n", "    if not alSettings.use_newton_only:\n        raise NameError('Loadstep failed to converge in', maxAlIters, 'iterations.')\n"), D1),
+        Variant("early return after an accepted second-order step (multipliers never projected)", A, sub_in_func(D, "                    x = y\n                    break", "                    x = y\n                    if errorNorm < alSettings.tol:\n                        return x\n                    break"), D2),
+        Variant("penalty growth capped by a multiple of the smallest penalty", A, sub("set(alSettings.penalty_scaling*kappa[poorProgress])", "set(np.minimum(alSettings.penalty_scaling*kappa[poorProgress], 1e6*np.min(kappa)))"), D3),
+        Variant("penalty switch on the initial penalties", C, sub_in_func("ConstrainedObjective.create_augmented_lagrangian", "np.where( l >= k*c,", "np.where( l >= self.constraintKappa*c,"), D4),
+        Variant("inverse scaling taken before the constraint softening", O, sub("            scaling = scaling.at[constrainedIndices].multiply(1.0/constraintStiffnessScaling)\n            invScaling = 1.0/scaling\n",
+                                                                            "            invScaling = 1.0/scaling\n            scaling = scaling.at[constrainedIndices].multiply(1.0/constraintStiffnessScaling)\n"), D5),
+        Variant("x1 + clip to the wrong side", A, R("x1:" + A, ("np.clip(lam - kappa*c, 0.0, None)", "np.clip(lam - kappa*c, None, 0.0)")), D2),
+        Variant("x1 + convergence helper with a factor", A, R("x1:" + A, ("    return state.errorNorm < alSettings.tol", "    return state.errorNorm < 10*alSettings.tol")), D1),
+        Variant("x2 + penalty without the factor 1/2", C, R("x2:" + C, ("return (shifted*shifted - l*l) / (2.0*k)", "return (shifted*shifted - l*l) / k")), D4),
+        Variant("x2 + split off by one", C, R("x2:" + C, ("nx = xl.size - k.size", "nx = xl.size - k.size - 1")), D15),
+        Variant("x3 + divide by the scaling twice", B, R("x3:" + B, ("    return xBar / scale", "    return xBar / scale / scale")), D5),
+        Variant("x3 + objective sees the scaled point", O, R("x3:" + O, ("objective_func(xBar/scaling, q)", "objective_func(xBar*scaling, q)")), D5),
+        Variant("x4 + multipliers not restored", A, R("x4:" + A, ("            alObjective.lam = lamSave\n            dx, dl = 0.2*dx, 0.2*dl", "            dx, dl = 0.2*dx, 0.2*dl")), D2),
+        Variant("x4 + returns when not converged late", A, R("x4:" + A, ("        if errorNorm >= alSettings.tol:\n            continue", "        if errorNorm >= alSettings.tol and it < 5:\n            continue")), D1),
+        Variant("x5 + penalties divided", A, R("x5:" + A, ("kappa.at[stalled].multiply(alSettings.penalty_scaling)", "kappa.at[stalled].multiply(1.0/alSettings.penalty_scaling)")), D3),
+        Variant("x5 + constraint instead of complementarity in the error", A, R("x5:" + A, ("norm(np.hstack((alObjective.gradient(x), alObjective.ncp(x))))", "norm(np.hstack((alObjective.gradient(x), alObjective.constraint(x))))")), D1),
     ]
